@@ -12,2841 +12,1337 @@ Definition show_fres (r : fres) : string :=
   end.
 Definition check (rs : list rune) : string := digest (show_fres (format_res rs)).
 Definition full (rs : list rune) : string := show_fres (format_res rs).
-Eval vm_compute in ("<<<M4530>>>" ++ check (runes_of_ascii "
+Eval vm_compute in ("<<<M1874>>>" ++ check (runes_of_ascii "// top
 
+options 	 // c0
+	{// c1a
+// c1b
+	StringPrefixLenType// c2
+  =// c3
+    	u16 
+	    // c4
+
+;
+	ArrayPrefixLenType 	 // c6a
+
+	// c6b
+=u8	// c8a
+      // c8b
+  ; FixedStringPadFromLeft  =
+	    // c11
+	true	// c12
+      ;FixedStringPadChar 	 // c14
+    = // c15a
+	// c15b
+
+	' '
+; 
+	    // c17
+	}
+    // c18
+
+	packet
+        // c19
+  Quote// c20a
+
+// c20b
+	{  int64 
+
+// c22
+
+OrderId 
+    // c23
+		,
+    // c24
+	  char[]	// c25
+
+	Ref
+    // c26
+    ,
+
+@leftPad 
+('0'	// c30
+)	// c31a
+
+// c31b
+    char[ 	 // c32
+	5
+	] 
+    // c34
+	price // c35
+,// c36
+	}  // c37
   packet
+	Heartbeat
+{// c40
+	  zchar[ // c41
+	  3
+]
+    venue 	 // c44a
+  // c44b
+	, string// c46a
+    // c46b
+  Flags// c47a
+	// c47b
+	,	// c48
+}	// c49a
+  // c49b
+  packet 	 // c50
 
-len {@calculatedFrom(
-""`tick`""	)  repeat zchar[
-    00	]chars //	t
-      `a\` ,
-    u8x  
-      // trailing space 
-  // a // b
-MetaDataX 
-`line1
-line2`
-// c
-
-	,
-	@calculatedFrom(
-	""a\""b"" )
-
-match matchKey
-as
-    asx
+Trade
+// c51
 {
-	[ ""CRC32"" ,
-""a\""b"" ] // " ++ [27880; 37322]%N ++ runes_of_ascii "
 
-  :
-    msg_type ,
+    repeat 
+	// c53
+InTag787
+	{// c55a
+    // c55b
+	i32
 
-},
+// c56
+  venue	// c57
+, 	 // c58
+    char[ // c59
+	5 
+	// c60
+    	] sym	// c62
+    ,
+        // c63
+	repeat 
+	    // c64
+InPx98 
+    // c65
+	{  // c66
+char[ // c67
 
-    i8 string_	@calculatedFrom(
-	""{,}"" 
-)	,@lengthOf(lengthOf 
-    //
-)	zchar[
-    42 ]
-_x 
-    // packet A { u8 x, }
-    	/// triple
-  `line1
-line2`
-	, 
-@lengthOf(
+	11
+	    // c68
+  ] 
+    // c69
+      Qty 
+	// c70
+    , // c71
 
-asx
-	)
-	repeat 	 // `tick` ""quote"" 'q'
-  	int8
+Heartbeat// c72a
+	  // c72b
 
-    Header
+, // c73a
+// c73b
+    char[] 
+// c74
+
+	price 
+      // c75
+      , // c76
+		u32
+    // c77
+	x
+// c78
+	,float64 
+        // c80
+  count // c81
+
 , 
-repeat
-	crc
+
+    // c82
+  	repeat Quote 
+    // c84
+      , 
+
+// c85
+    },
+zchar[ 
+
+    // c88
+7
+] 	 // c90a
+  // c90b
+  Note 
+
+// c91
+
+  , repeat 	 // c93a
+// c93b
+	  char[ 	 // c94a
+    	// c94b
+
+	1
+] 	 // c96a
+	// c96b
+  	Tail  // c97
+	, 
+
+    // c98
+    	}  
+      // c99
+	, // c100
+		repeat // c101
+  char[ 	 // c102
+2 ]
+seqNo
+, 	 // c106
+	  InTail55 {  // c108a
+	// c108b
+
+	repeat 
+      // c109
+Quote	// c110
+	,string // c112a
+	// c112b
+
+  msgKind 
+// c113
+	, 
+
+// c114
+  InPx18  // c115a
+
+  // c115b
+  {  // c116
+    char[] count 	 // c118
+,repeat	Quote  // c121
+
+,
+uint16	// c123a
+
+	// c123b
+Qty// c124a
+  // c124b
+	  ,// c125a
+    	// c125b
+  	}	// c126a
+    	// c126b
+
+, 	 // c127
+  char[ // c128a
+// c128b
+      4 // c129a
+    	// c129b
+
+]// c130
+    seqNo
+    // c131
+,	// c132
+	repeat  // c133
+
+Heartbeat// c134a
+
+  // c134b
+    	, 	 // c135a
+
+	// c135b
+      repeat  
+  // c136
+    string
+
+sym  // c138a
+	// c138b
+	,
+// c139
+  }	, // c141
+repeat// c142a
+	// c142b
+	  Quote 
+,
+
+Heartbeat // c145a
+    	// c145b
+  , 
+
+    // c146
+
+@leftPad
+
+    // c147
+    (// c148
+' ' ) 	 // c150a
+	// c150b
+	char[ 	 // c151
+      10 ] 	 // c153a
+
+  // c153b
+  OrderId ,
+        // c155
+}	// c156a
+  // c156b
+root 
+    // c157
+	packet // c158
+    Fill{ 	 // c160a
+// c160b
+Heartbeat	// c161
+	,uint32  // c163a
+      // c163b
+      count  ,// c165
+u8 	 // c166a
+	// c166b
+    OrderId 
+    // c167
+,	// c168
+  match	// c169
+  OrderId
+
+as// c171a
+
+	// c171b
+		Body // c172a
+
+	// c172b
+
+	{
+	96  // c174a
+	// c174b
+: Quote  // c176a
+	// c176b
+  , 
+      // c177
+
+195 
+    // c178
+	:  // c179
+    Trade
+	, // c181
+187 // c182
+  	:  // c183
+
+Heartbeat ,// c185a
+
+// c185b
+	}// c186a
+  // c186b
+  ,
+// c187
+	  u32 venue@calculatedFrom( 	 // c190
+	""CRC32"" 
+) // c192
+
+,	}// c194")).
+Eval vm_compute in ("<<<M1627>>>" ++ check (runes_of_ascii "options {
+    // c1a
+    // c1b
+    LittleEndian = true;
+    StringPrefixLenType = u16;
+    ArrayPrefixLenType = u8;// c13
+    FixedStringPadChar = '0';
+    // c17
+}// c18a
+
+// c18b
+packet Logout {
+    // c21
+    repeat i16 f1,
+    // c25
+    string Ref,// c28a
+    // c28b
+    @rightPad('\x00')
+    char[9] Tail,
+    repeat char[6] Flags,
+    // c43
+    repeat char[3] Acct,
+    // c49
+}
+
+// c50
+packet Party {
+    // c53a
+    // c53b
+    char[2] f1,
+    u8 Side2,// c61
+    @leftPad(' ')
+    // c65
+    char[1] venue,// c70
+}// c71a
+
+// c71b
+packet Order {
+    // c74
+    repeat i64 Ref,
+    InPx62 {
+        // c80a
+        // c80b
+        i32 OrderId,// c83
+    },
+    InNote53 {
+        // c87
+        InClordid80 {
+            char[] Acct,
+            // c92
+            u32 Px,// c95
+            repeat Party,// c98a
+            // c98b
+        },// c100
+        InPrice12 {
+            // c102
+            u8 pad0,
+        },// c107a
+        // c107b
+        repeat Logout,
+        InFlags23 {
+            // c112a
+            // c112b
+            repeat string seqNo,
+            // c116
+            string sym,// c119
+            int8 Flags,
+            // c122
+            zchar[5] lastPx,
+            zchar[6] Px,// c132a
+            // c132b
+        },
+        // c134
+        char[10] Acct,
+        InPx18 {
+            // c141
+            zchar[2] count,// c146
+            Party,// c148a
+            // c148b
+        },// c150a
+        // c150b
+    },// c152
+    char[5] Side2,// c157a
+    // c157b
+    char[1] Acct,
+}// c163a
+
+// c163b
+root packet Ack {
+    // c167
+    u32 Tail,
+    repeat char[4] msgKind,// c176a
+    // c176b
+    repeat Logout,
+    // c179
+}
+// c180")).
+Eval vm_compute in ("<<<M134>>>" ++ check (runes_of_ascii "packet As { options1
+    { i16 o , } , i64 roots ,repeat char[] o
+    `a\` , @calculatedFrom( ""1""//x
+)  repeatCount	@lengthOf(/// triple
+falsey /// triple
+)
+// packet A { u8 x, }
+// " ++ [128512]%N ++ runes_of_ascii " emoji
+`a\` ,
+@lengthOf( stringy ) char[]	As
+`" ++ [233]%N ++ runes_of_ascii "` ,
+asx {match msg_type as
+chars { //	t
+00: metadata
+    // `tick` ""quote"" 'q'
+    , }
+    , i8 pack// c
+@calculatedFrom(
+    /// triple
+    ""x y"" )
+// trailing space 
+// a // b
+,//	t
+match u8x as	rootA{
+""1"": a1
+, [
+    // packet A { u8 x, }
+    4294967296 ]
+:msg_type
+//
+//x
+,
+}
+, } // a // b
+, @calculatedFrom(
+""" ++ [233]%N ++ runes_of_ascii "t" ++ [233]%N ++ runes_of_ascii """ ) int16 roots ,
+    @tag(1 )	@leftPad ( '0' ) @rightPad // " ++ [27880; 37322]%N ++ runes_of_ascii "
+( '\x00'
+)i32 asx `tab	here`	,char Logon `u8 x,` // trailing space 
+,  }
+root	packet string_ {// @lengthOf(
+}packet Z9_ { int8 _x
+, repeat u8 uint8x `" ++ [233]%N ++ runes_of_ascii "`
+,
+float64 x_y_z @calculatedFrom(	""x y"" )
+    , @calculatedFrom(	""a\""b"" ) @calculatedFrom( ""a\""b"" )
+    int
+{zchar[255
+] //
+msg_type,  i64_
+    // trailing space 
     {
-
-    int8
-i64_//x
-	@calculatedFrom( ""{,}"" ) 
-, }
-    ,
-repeat _x	i8i8`line1
-line2`
-
-,float64 	 // trailing space 
-  stringy
-    ,  MetaDataX{
-
-    charz
-{	int16  matchKey ,repeat	i64_ 
-,
-
-    char[
-00 ]
-
-Z9_ `
-`	,	match As 
-    //x
-    as
-
-Packet
-
+    stringy @lengthOf(x_y_z )
+    , u
+    options1
+    //
+    `tab	here` ,
+char[0123456789 ] msg_type ,float32
+    Foo `{ , }`
+    , } , } ,  @tag(	0
+)
+    @calculatedFrom( ""CRC32"" ) charz , @tag(
+    // @lengthOf(
+    4294967296 )
+i64 packetx ,  } //	t")).
+Eval vm_compute in ("<<<M153>>>" ++ check (runes_of_ascii "options
+// packet A { u8 x, }
+/// triple
+{	}MetaData	zchar// @lengthOf(
 {
-	3
-:
-crc ,[
-    //	t
-  	// @lengthOf(
+    A i64_
+`crlf
+line` , char[]string_ `
+` , Packet
+stringy `a\` , // `tick` ""quote"" 'q'
+char[ 1] i8i8 // @lengthOf(
+,float32
+options1 `{ , }` ,} packet
+    a1{@lengthOf( o ) //x
+o { calculatedFrom @calculatedFrom(
+    //x
+    ""a\\""
+) , } , @lengthOf(
+a1) repeat i8i8
+    stringy ,int8	pack , @lengthOf( u8x
+    ) string
+packetx @calculatedFrom( ""`tick`"" ) `` , @lengthOf( Header ) @tag( 0123456789 ) @calculatedFrom(
+""CRC32"" ) repeat BodyLength `two words` , @lengthOf( T)  zchar[ 1//
+] repeatCount@lengthOf( o	) ,
+    match // " ++ [128512]%N ++ runes_of_ascii " emoji
+As as options1 { ""1"":
+    o, ""a\\"": crc
+,[ 0123456789, ""a	b"" // `tick` ""quote"" 'q'
+, """ ++ [128512]%N ++ runes_of_ascii """ ,	65535
+, """ ++ [128512]%N ++ runes_of_ascii """
+    // `tick` ""quote"" 'q'
+    ,  ""1""	,
+00 ] : x , [ ""abc""	,
+""\n""
+, 4294967296 ,
+10 ,
+    //x
+    0123456789
+,	42 , """ ++ [128512]%N ++ runes_of_ascii """, 3 ] :
+    // " ++ [128512]%N ++ runes_of_ascii " emoji
+    msg_type } , match
+u8x as
+lengthOf
+    { [""x y"" , ""{,}""// a // b
+] :	asx // `tick` ""quote"" 'q'
+4294967296  : chars,
+    ""CRC32"" : a1 ""a	b"" :metadata ,  7 : zchar  , }
+, }")).
+Eval vm_compute in ("<<<M1566>>>" ++ check (runes_of_ascii "options {
+    LittleEndian = false;
+    FixedStringPadFromLeft = false;
+    FixedStringPadChar = ' ';
+}
+packet Fill {
+    uint16 Qty,
+    uint64 clOrdID,
+    repeat i64 Flags,
+}
+packet Ack {
+    zchar[7] clOrdID,
+    u64 lastPx,
+    char[] Note,
+    repeat Fill,
+    int32 count,
+}
+packet Quote {
+    u8 venue,
+    InRef40 {
+        char[] Qty,
+    },
+    zchar[5] Flags,
+    @rightPad('\x00') char[12] msgKind,
+}
+packet Logout {
+    InSym79 {
+        int32 Qty,
+        Fill,
+        char[3] x,
+        repeat InNote29 {
+            i16 price,
+            Ack,
+            f64 x,
+            zchar[8] count,
+        },
+    },
+}
+root packet Logon {
+    zchar[1] sym,
+    u32 count,
+    u16 tag7 @lengthOf(Body),
+    match count as Body {
+        [122, 152] : Ack,
+        118 : Logout,
+        61 : Quote,
+        161 : Fill,
+    },
+    u32 Acct @calculatedFrom(""CR\
+C32""),
+}
+")).
+Eval vm_compute in ("<<<M1765>>>" ++ check (runes_of_ascii "  packet	zchar{ BodyLength  x // `tick` ""quote"" 'q'
+	, // trailing space 
+	  @rightPad
 
-1 , 
-00
-    ] :
-Header 	 // " ++ [27880; 37322]%N ++ runes_of_ascii "
-		, 255
-    :_x
+    ( '0' 
+) match _x  as
 
-    ,
-	42 :
-
-    body
-
-,
-
-    [
-
-    0]
-    :  chars
-
-    [4294967296 ,
-    65535  ]
+    x
+{  [
+""" ++ [128512]%N ++ runes_of_ascii """
+]
+: falsey
+,	65535 :chars
+0
 
     :
-    chars ,}
-
-    /// triple
-  	// @lengthOf(
-	, } 
-
-    // trailing space 
-
-// @lengthOf(
-  ,	}	, }
-
-MetaData
-    falsey{
-char[
-
-    255
-    ]
-u128 ,
-u8
-
-    Header`tab	here`,
-
-string
-float , }root
-packet
-int
-{ Logon i64_ ,@calculatedFrom(  ""1"" ) zchar {
-u {	zchar[ 255
+    falsey, [
+    ""packet""
 ]
 
-Pad ,}
-
-    ,	stringy
-{  Pad metadata
-	`u8 x,`
-,	}
-,
-repeat
-
-    string i8i8
-
-, char[] As @calculatedFrom(
-""\n""  )
-,	} 
-    // " ++ [27880; 37322]%N ++ runes_of_ascii "
-	  ,
-@lengthOf(
-packetx	// a // b
-  )  @lengthOf( 
-i64_ )
-	body `line1
-line2`
-
-    , @lengthOf(roots  ) match
-// `tick` ""quote"" 'q'
-
-// trailing space 
-  MetaDataX as uint8x
-
-{ 	 // `tick` ""quote"" 'q'
-[
-    007
-    /// triple
-    // " ++ [27880; 37322]%N ++ runes_of_ascii "
-
-	,	//x
-
-	255 
-,00
-	] : 
-body  // c
-  ,
-	[	65535
-    , ""1"" 
-,	// `tick` ""quote"" 'q'
-	1
-	, 
-""\n""	//	t
-		,  1,
-	""CRC32"" 
-,
-	//	t
-0 
-] : 
-trueish
-
-    ,
-
-    }  ,
-uint64
-	Foo , zchar {	metadata
-	@lengthOf(Pad
-	) 	 //	t
-`crlf
-line`
-,
-
-    match
-	u
-	as
-
-    charz  { 65535	: 
+    :  // c
+    metadata  0
+: 
+repeatCount  , 00//
+		:	packetx 
+, }  , }packet crc 
+{	match 
+body 
     //x
-  	int 
-[
-    ""1""  ]: 
-    // c
-    	//
-	a1 , 
-[
+//x
+as 
+len{ 7
+    :
+leftPad
+, 007
+:x_y_z ,00 :
+	x_y_z , [ 0
+
+,  10 
+,
+10
+
+, 	 //	t
+      10 ]
+    :
+calculatedFrom// packet A { u8 x, }
+  ,""packet""
+:calculatedFrom
+
+    },
+
+    @leftPad (
+'0')
+    @tag( 
 4294967296
 
-    ,00
+)match
+u128 // c
+  	as
+	trueish
 
-, """ ++ [233]%N ++ runes_of_ascii "t" ++ [233]%N ++ runes_of_ascii """
-, 
-""" ++ [28040; 24687]%N ++ runes_of_ascii """,
-00]
-
-:  matchKey , 
-[ 
-""a\\""
-]
-	: Logon 
-,
-
-}	,	repeat 
-rootA	{	int16 Foo
-    @lengthOf( rootA	// " ++ [27880; 37322]%N ++ runes_of_ascii "
-
-  )
-
-    ,options1
-    `u8 x,`  // trailing space 
-	,},
-
-}
-
-    ,match 
-chars
-	as
-
-u 
-    // " ++ [128512]%N ++ runes_of_ascii " emoji
-
-  // " ++ [128512]%N ++ runes_of_ascii " emoji
-
-{[	//
-
-""it's""
-,
-	007 ,
-
-""" ++ [233]%N ++ runes_of_ascii "t" ++ [233]%N ++ runes_of_ascii """,
-	""abc"" ,
-	""\n"", 
-    // " ++ [128512]%N ++ runes_of_ascii " emoji
-	// " ++ [27880; 37322]%N ++ runes_of_ascii "
-"""" 	 // c
-    ]  :repeatCount, 65535 
-      // " ++ [128512]%N ++ runes_of_ascii " emoji
-    :Z9_
-
-, 
-[
-007
-
-    ,
-""abc""
-,
-""// no comment""
-	,""" ++ [28040; 24687]%N ++ runes_of_ascii """ ]
-:
-
-    falsey 
-,  00
-
-:string_
-	},
-
-char
-repeatCount
-,
-
-} packet  Foo  {
-
-char[]
-    a1 
-@calculatedFrom("""" )	`line1
-line2` ,
-uint16// a // b
-      MetaDataX
-// packet A { u8 x, }
-
-`say ""hi""`
-
-    ,
-	char[] A
-
-, 
-    // trailing space 
-
-// " ++ [128512]%N ++ runes_of_ascii " emoji
-    f64
-	int
-
-@lengthOf(
-Pad
-)  , u32 BodyLength,
-
-float64  trueish @lengthOf(
-lengthOf
-
-    ) 
-// `tick` ""quote"" 'q'
-		// trailing space 
-  `crlf
-line` , @tag(
-	255 ) match 
-Z9_ as
-
-    tag{ [ ""a\""b"" ,4294967296
-
-,
-    ""{,}""  ,
-
-    ""{,}""  /// triple
-
-  ] :
-
-Pad  ,
-	1	:
-lengthOf ,
-	0123456789 :
-
-msg_type
-
-    , ""// no comment""	:
-	BodyLength
-,[  ""1""
-    ]
-	:
-string_
-[ 3 
-,
-    0,
-
-1 ,	1
-
-, ""\" ++ [233]%N ++ runes_of_ascii """  // " ++ [27880; 37322]%N ++ runes_of_ascii "
-	,
-
-"""" , 00
-// c
-] 	 // c
-: asx	} ,  body`say ""hi""`	// `tick` ""quote"" 'q'
-
-, }
-
-    options
-{ x  =
-
-'0'
-    ;
-
-    u8x // " ++ [128512]%N ++ runes_of_ascii " emoji
-    =u64 ;  
-      // c
-  //	t
-	string_	=
-""a\""b""
-    }")).
-Eval vm_compute in ("<<<M667>>>" ++ check (runes_of_ascii "options  {Logon  =
-    int64 zchar =
-'0' ; x_y_z =  ""abc""
-    ; } root  packet Packet { @calculatedFrom( ""// no comment""
-) char[] o// c
-, @lengthOf( uint8x )
-i32 metadata , @rightPad (
-' '
-    )
-repeat
-Foo{ BodyLength { i8i8 `{ , }` , },
-    match _x as charz
-{42 : Pad  ,
-} , Pad zchar ,string
-charz ,
-    // trailing space 
-    }
-,
-    char[ 1 ]
-    Foo,
-@lengthOf(  f32a ) @leftPad (	'\x00' ) match calculatedFrom as
-    u8x
-{  0123456789	: Packet  ""a\""b"" // packet A { u8 x, }
-: //
-charz,
-    4294967296 :
-    f32a [ ""packet"" ]
-: zchar ,""packet""	: a1 ,  } ,
-_x
-    {repeat char[ 0 ]
-len , }
-,
-    zchar[
-//	t
-// c
-0123456789 ]pack @lengthOf( asx ),} packet Pad {
-// trailing space 
-//	t
-@lengthOf(
-u8x ) char[ 0 ]options1 `it's` , @lengthOf( body )
-u128
-{ Z9_ { string_ @calculatedFrom(""CRC32"" ) `" ++ [233]%N ++ runes_of_ascii "`
-,} //	t
-,match
-    Header as o
-    {""packet"" : i64_ , """ ++ [28040; 24687]%N ++ runes_of_ascii """ :leftPad ,3:i64_
-    , } , int8 body
-@calculatedFrom( ""a\\""
-) `
-`  ,
-repeat Pad	{ // " ++ [128512]%N ++ runes_of_ascii " emoji
-zchar[1 ]metadata @lengthOf(  Z9_ ) `// not a comment`
-,
-    rootA metadata ,
-    u32 i8i8
-@lengthOf( roots )
-,
-    repeat
-//	t
-// @lengthOf(
-uint64 pack, }, } ,
-char[ 0 ] chars
-// " ++ [128512]%N ++ runes_of_ascii " emoji
-// `tick` ""quote"" 'q'
-, i8 msg_type`" ++ [233]%N ++ runes_of_ascii "`,match u as body// c
-{ 42  : zchar} ,@leftPad
-(' '
-)asx {repeat repeatCount Z9_ ,
-repeat//	t
-zchar[ 4294967296] //
-Pad
-    , }, @tag( 255	)@tag( 255) char[ 0123456789 ]u8x ,
-    //	t
-    @calculatedFrom(""CRC32"" )// trailing space 
-char[3 ]
-Pad	`" ++ [233]%N ++ runes_of_ascii "` , @lengthOf( x_y_z ) @rightPad (// `tick` ""quote"" 'q'
-)@rightPad
-(
-    /// triple
-    ) Foo {
-    match asx	as lengthOf
-{["""" , 00 ,  ""1"", ""// no comment"",	4294967296 , 007,
-""{,}""
-    ] : MetaDataX , }
-    ,
-}
-    , } // c
-root packet crc
-// " ++ [27880; 37322]%N ++ runes_of_ascii "
-//x
-{ repeat i32	body
-    , float64
-    // c
-    Header`u8 x,`
-, string Foo
-@lengthOf( packetx // trailing space 
-)
-    , char[] As `" ++ [28040; 24687; 31867; 22411]%N ++ runes_of_ascii "`, string_ @calculatedFrom( ""\" ++ [233]%N ++ runes_of_ascii """ )
-`it's`,
-@calculatedFrom( ""CRC32"" )
-    @tag( 1
-    )	repeat trueish	packetx // @lengthOf(
-,
-}
-MetaData f32a
-{	char[] Header ,
-}
-")).
-Eval vm_compute in ("<<<M4291>>>" ++ check (runes_of_ascii "packet T {
-    @lengthOf(Foo)
-    @tag(10)
-    @lengthOf(rootA)
-    chars `it's`,
-    repeat char roots,
-    @tag(0)
-    match charz as leftPad {
-        0 : tag,
-    },
-    Z9_ u128,
-    int32 int @calculatedFrom(""\n""),
-    @lengthOf(int)
-    Z9_ {
-        repeat char[] calculatedFrom `crlf
-        line`,
-        zchar[0] o @calculatedFrom(""\" ++ [233]%N ++ runes_of_ascii """),
-        u8x {
-            _x,// @lengthOf(
-            zchar[3] stringy @lengthOf(T),
-            // trailing space 
-            uint8 body,
-            char[] falsey @calculatedFrom(""// no comment"") `" ++ [233]%N ++ runes_of_ascii "`,/// triple
-        },
-    },
-    @tag(1)
-    @calculatedFrom(""a\\"")
-    // c
-    @rightPad('0')
-    i32 tag @calculatedFrom(""a\""b"") `crlf
-    line`,
-    match BodyLength as f32a {
-        [
-            3, ""`tick`"", ""`tick`"", 007, ""1"",
-            65535, 1, 0
-        ] : Z9_,
-        [""CRC32"", ""a\\""] : chars,
-        ""a\""b"" : roots,
-        1 : f32a,
-        // " ++ [27880; 37322]%N ++ runes_of_ascii "
-    },
-    trueish {
-        //
-        /// triple
-        zchar {
-            match Pad as tag {
-                [0123456789, 00, 7, ""a	b"", ""CRC32""] : options1,
-                // @lengthOf(
-            },
-            pack {
-                zchar[10] chars,
-            },
-            u `crlf
-            line`,
-            repeat int32 _x `two words`,
-        },
-    },// trailing space 
-    falsey As,
-}
-
-options {
-    falsey = ""abc"";
-    Foo = false;
-}
-
-root packet A {
-    @lengthOf(uint8x)
-    match u8x as msg_type {
-        [007, 00] : u128,
-        [
-            255, ""{,}"", 10, ""// no comment"", """",
-            """ ++ [128512]%N ++ runes_of_ascii """
-        ] : T,
-        255 : string_,
-        ""`tick`"" : As,
-    },
-}
-
-MetaData chars {
-    char[65535] roots,
-    i64 u128,
-    char[42] pack,
-}//x")).
-Eval vm_compute in ("<<<M959>>>" ++ check (runes_of_ascii "
-MetaData lengthOf  {A chars `two words` , u string_
-,roots
-Logon	,u8
-x_y_z , u32
-    lengthOf
-`{ , }` ,
-    } packet
-asx{ @rightPad(
-)	chars `{ , }`, @calculatedFrom( ""a\\""
-) repeat i64
-x ,@calculatedFrom( ""it's"")@calculatedFrom( ""\n"" )
-@leftPad
-( '\x00' ) match
-uint8x as leftPad {	42 // packet A { u8 x, }
-: u128, [	65535] : Logon
-// `tick` ""quote"" 'q'
-// " ++ [128512]%N ++ runes_of_ascii " emoji
-10 :
-u128 ,
-""\n"" :matchKey ,
-} , // c
-leftPad	{
-    packetx
-    @calculatedFrom( ""x y"" ) , }
-, i16 int, @calculatedFrom( ""`tick`"" ) uint32 a1@lengthOf(
-i64_), match zchar as
-    roots
-{
-    42 :
-    i64_	,
-4294967296 :x_y_z 10
-:
-    //
-    As [""it's"" ,
-""\" ++ [233]%N ++ runes_of_ascii """ , 255
-    ,
-""\n"" ]
-    : Packet , } , @tag( 0123456789 ) match
-    lengthOf
-as	stringy{
-[ """ ++ [28040; 24687]%N ++ runes_of_ascii """ ,""\n"",
-""1"",1 ,	""CRC32"" , 65535 ,
-    // trailing space 
-    65535] : rootA , 00 :trueish
-,""CRC32"": Foo , } ,
-@lengthOf( i64_ ) repeat
-u8x {zchar[ 7]charz @lengthOf( i8i8 ), }	,
-} packet
-a1
-    { @rightPad( '\x00' )calculatedFrom ,
-    i8i8, @lengthOf(
-    chars )
-    @rightPad ('\x00' /// triple
-) len{ string crc,repeat chars `" ++ [233]%N ++ runes_of_ascii "`
-, }, x @calculatedFrom(
-""" ++ [28040; 24687]%N ++ runes_of_ascii """) , // c
-@tag(
-    4294967296)match float as
-    Packet
-{ 1:
-    T,	[ 4294967296 , ""it's"", 007
-,
-""CRC32""
-] // packet A { u8 x, }
-:	a1
-    }
-,
-    @lengthOf(
-    // c
-    matchKey )rootA @lengthOf(
-pack// " ++ [128512]%N ++ runes_of_ascii " emoji
-),
-@lengthOf(
-body
-)
-    repeat x_y_z`` , calculatedFrom chars  ,
-@calculatedFrom( """ ++ [128512]%N ++ runes_of_ascii """ ) chars pack ,
-    // a // b
-    }options {x_y_z = 4294967296; } // " ++ [27880; 37322]%N)).
-Eval vm_compute in ("<<<M3860>>>" ++ check (runes_of_ascii "MetaData MetaDataX {
-    i8i8 roots,
-    zchar[65535] rootA `// not a comment`,// a // b
-    x_y_z leftPad `u8 x,`,
-    char[] stringy `it's`,
-}// packet A { u8 x, }
-
-packet Foo {
-    string lengthOf,
-    i32 packetx @lengthOf(asx) `{ , }`,
-    repeat falsey `two words`,
-    char[] roots @calculatedFrom(""" ++ [28040; 24687]%N ++ runes_of_ascii """),//
-    leftPad @calculatedFrom(""" ++ [28040; 24687]%N ++ runes_of_ascii """) `" ++ [233]%N ++ runes_of_ascii "`,
-    @tag(42)
-    zchar[65535] As @lengthOf(a1) `doc`,
-}
-
-root packet charz {
-    @tag(4294967296)
-    string options1 `tab	here`,
-}
-
-packet leftPad {
-}
-
-packet metadata {
-    //	t
-    i32 BodyLength @calculatedFrom(""it's"") `say ""hi""`,
-    @rightPad()
-    // " ++ [128512]%N ++ runes_of_ascii " emoji
-    chars {
-        repeat falsey {
-            uint64 tag @lengthOf(len),
-            char[42] packetx @calculatedFrom(""abc""),
-        },
-        Header {
-            zchar[00] charz @calculatedFrom(""x y""),
-            uint8 calculatedFrom @calculatedFrom(""\n""),
-            trueish `" ++ [28040; 24687; 31867; 22411]%N ++ runes_of_ascii "`,
-            string_ @calculatedFrom(""// no comment"") `it's`,
-        },
-        string crc,
-    },// " ++ [128512]%N ++ runes_of_ascii " emoji
-    @calculatedFrom(""1"")
-    @calculatedFrom(""" ++ [28040; 24687]%N ++ runes_of_ascii """)
-    @tag(7)
-    i8 Foo,
-    i8 a1 @calculatedFrom(""{,}"") ``,
-    repeat falsey {
-        o @calculatedFrom(""abc"") `
-                `,
-        zchar[42] matchKey,
-    },
-    i64 As,
-    //	t
-    // `tick` ""quote"" 'q'
-    repeat As,
-    repeat int64 string_,
-}
-//	t")).
-Eval vm_compute in ("<<<M4289>>>" ++ check (runes_of_ascii "root packet a1 {
-    uint64 body,
-    @lengthOf(rootA)
-    char[1] zchar,
-    BodyLength,
-    string_,
-    char[] float @lengthOf(lengthOf),//
-    uint32 asx `" ++ [28040; 24687; 31867; 22411]%N ++ runes_of_ascii "`,
-    char[] uint8x @calculatedFrom(""abc""),
-    @tag(255)
-    @calculatedFrom(""a\\"")
-    zchar[3] options1,
-}
-
-packet charz {
-    @rightPad(' ')
-    matchKey @lengthOf(u) `u8 x,`,
-    @lengthOf(len)
-    @lengthOf(falsey)
-    u @calculatedFrom(""a\\""),
-    match i8i8 as Packet {
-        [""a	b""] : roots,
-        ""abc"" : trueish,
-        [""a\\"", 65535] : asx,
-        0123456789 : a1,
-        1 : i64_,
-    },
-    match len as Header {
-        [
-            0, 0123456789, 7, 0, ""\n"",
-            ""a\\""
-        ] : o,
-        ""x y"" : crc,
-        [3, ""\" ++ [233]%N ++ runes_of_ascii """] : lengthOf,
-        [10, ""x y""] : u8x,
-        1 : Packet,
-        007 : Z9_,
-    },
-    @calculatedFrom(""packet"")
-    @tag(65535)
-    repeat Pad rootA,
-    @tag(4294967296)
-    @lengthOf(stringy)
-    crc @lengthOf(uint8x) `" ++ [28040; 24687; 31867; 22411]%N ++ runes_of_ascii "`,
-}
-
-// @lengthOf(
-MetaData u8x {
-    len calculatedFrom,// packet A { u8 x, }
-    u16 asx,
-}
-
-MetaData Logon {
-    u16 chars ``,
-    A matchKey `a\`,
-    char[007] Header,
-    len uint8x,
-    A Packet `line1
-        line2`,
-    string trueish `u8 x,`,
-}")).
-Eval vm_compute in ("<<<M127>>>" ++ check (runes_of_ascii "root packet As// `tick` ""quote"" 'q'
-{
-    @calculatedFrom( ""{,}""	)zchar[ 4294967296
-    // packet A { u8 x, }
-    ]As ,@tag( 7 ) repeat
-    pack
-    {body
-    {// trailing space 
-zchar[
-65535 //x
-] MetaDataX `doc`
-, string_ @lengthOf( // " ++ [27880; 37322]%N ++ runes_of_ascii "
-Logon  ) , i64 MetaDataX@calculatedFrom( """" )// " ++ [27880; 37322]%N ++ runes_of_ascii "
-`a\`, //x
-repeat char[] Foo,	} ,
-/// triple
-// packet A { u8 x, }
-},@lengthOf( MetaDataX
-    ) @calculatedFrom(
-""\n""	) @lengthOf( float )
-char[ 0123456789 ] a1 @calculatedFrom( ""a\""b"") ,
-repeat msg_type  { // `tick` ""quote"" 'q'
-repeat f64 Packet`a\` , int64 asx@calculatedFrom( ""{,}"" )`" ++ [233]%N ++ runes_of_ascii "`  ,zchar[3  ]
-    metadata	,	zchar[
-00 ] x_y_z
-    @calculatedFrom( ""CRC32""
-) , }, } packet calculatedFrom // a // b
-{ match calculatedFrom as BodyLength{ 65535
-: Foo ,
-    }, match
-    int as falsey {  42 : body, [ ""abc""
-// " ++ [128512]%N ++ runes_of_ascii " emoji
-// " ++ [27880; 37322]%N ++ runes_of_ascii "
-,
-    ""\n"" , ""abc""
-,""" ++ [28040; 24687]%N ++ runes_of_ascii """	]:stringy
-    // `tick` ""quote"" 'q'
-    , [0123456789
-, ""{,}""
-,
-42
-    , 1
-]// " ++ [27880; 37322]%N ++ runes_of_ascii "
-: trueish , ""`tick`"" :metadata ,  [ ""1"" , ""a	b"" , 42
-]
-: zchar}
-    ,repeat zchar[  4294967296 ]stringy `line1
-line2`
-, } options // @lengthOf(
-{stringy= // packet A { u8 x, }
-' '/// triple
-; }")).
-Eval vm_compute in ("<<<M521>>>" ++ check (runes_of_ascii "// `tick` ""quote"" 'q'
-packet msg_type {
-    // c
-    uint8 leftPad ,  } packet roots {@tag(  3 )
-// a // b
-// `tick` ""quote"" 'q'
-string_ //x
-@lengthOf(body )
-,  Header@lengthOf( Z9_
-//x
-/// triple
-) , repeat zchar[ 007 ] roots	,	string_
-msg_type `crlf
-line` , Logon // c
-@lengthOf(	pack // c
-)
-`say ""hi""` ,@rightPad ( '\x00' )
-@leftPad
-    // a // b
-    ( '0' )
-    repeat u8 float `it's` /// triple
-, @calculatedFrom( ""\n"" )	@lengthOf(  falsey // " ++ [128512]%N ++ runes_of_ascii " emoji
-)
-    msg_type{ match
-Packet
-    as tag
-{[
-    10 ,
-007 //x
-]
-    :int , 4294967296
-    : //
-asx
-,} ,
-uint32 string_ @lengthOf(
-    _x ) `two words`
-    //x
-    ,
-    _x
-    //
-    , } ,	f32a {f32 body , uint16  u128 ,
-matchKey	@lengthOf(Packet ) , } ,
-repeat
-    zchar[
-0123456789 ] // a // b
-float `say ""hi""` ,f32 i8i8 `{ , }`, } root packet	options1 {@tag( 0
-    )
-packetx
-, repeat
-float64 BodyLength , }
-    options { Pad =
-    // packet A { u8 x, }
-    true
-// a // b
-/// triple
-; crc = 007; // @lengthOf(
-}
-MetaData packetx{ roots  Packet  `tab	here` , // " ++ [128512]%N ++ runes_of_ascii " emoji
-asx
-    len , }
-
-")).
-Eval vm_compute in ("<<<M732>>>" ++ check (runes_of_ascii "// " ++ [27880; 37322]%N ++ runes_of_ascii "
-options  { i8i8
-    //	t
-    = 007 ; Logon =	3
-; }	packet u128 {BodyLength{ char[ //x
-7
-] int, u16 _x@lengthOf( // packet A { u8 x, }
-u)	, i8 rootA
-    `tab	here`
-,
-    stringy MetaDataX`u8 x,` , } , @tag(007 ) f32a @calculatedFrom( """ ++ [28040; 24687]%N ++ runes_of_ascii """ )
-    `it's`
-,
-// c
-// a // b
-@calculatedFrom( ""x y""
-    )char[007 ] string_ //x
-@calculatedFrom( """ ++ [128512]%N ++ runes_of_ascii """ )
-    , // c
-@calculatedFrom( ""// no comment""
-) @calculatedFrom( ""a	b"" )  f64
-As , // `tick` ""quote"" 'q'
-zchar[7]x `
-` ,
-    /// triple
-    u16
-o, repeat float32 roots `{ , }`
-    ,
-@leftPad (
-)// c
-repeatCount
-{ float64
-u8x `a\`
-// @lengthOf(
-// " ++ [27880; 37322]%N ++ runes_of_ascii "
-,rootA@lengthOf( //	t
-chars ) ,
-    match u128  as
-roots{
-// a // b
-//
-[
-""" ++ [128512]%N ++ runes_of_ascii """ ] : msg_type// c
-, ""\n"" :
-    u8x
-00 :
-crc
-    //x
-    } , },
-//x
-/// triple
-u16 lengthOf @calculatedFrom( // c
-""" ++ [233]%N ++ runes_of_ascii "t" ++ [233]%N ++ runes_of_ascii """  ),	}MetaData
-repeatCount{ zchar[ 0123456789
-] Logon , char[ 42	]  int	,}
-    options {}
-options // " ++ [128512]%N ++ runes_of_ascii " emoji
-{
-repeatCount = ""1""
-Z9_ = 255  string_ = ' '
-;  trueish = 3 ; crc =
-""packet""
-    ;}
-")).
-Eval vm_compute in ("<<<M1232>>>" ++ check (runes_of_ascii "options {
-    i64_ =
-// c
-// trailing space 
-""x y"";
-    chars
-// a // b
-//	t
-=
-    65535 metadata= i32; // trailing space 
-} root  packet
-chars { @lengthOf( /// triple
-chars
-    // " ++ [128512]%N ++ runes_of_ascii " emoji
-    ) repeat  Logon
-// " ++ [128512]%N ++ runes_of_ascii " emoji
-//	t
-{ string len @lengthOf(
-    crc ) //x
-,u128 @lengthOf( x )
-, } , }
-    packet chars
-{ @lengthOf(charz)@calculatedFrom( """ ++ [233]%N ++ runes_of_ascii "t" ++ [233]%N ++ runes_of_ascii """  )
-@calculatedFrom( """ ++ [128512]%N ++ runes_of_ascii """ )repeat
-    // " ++ [128512]%N ++ runes_of_ascii " emoji
-    repeatCount
-    Packet `u8 x,`,match
-rootA as
-    /// triple
-    falsey {
-    ""{,}""
-:
-As ,
-00
-: // " ++ [128512]%N ++ runes_of_ascii " emoji
-lengthOf ,
-""\n"" : u8x, """ ++ [233]%N ++ runes_of_ascii "t" ++ [233]%N ++ runes_of_ascii """  :T 3:
-    /// triple
-    calculatedFrom ,}, @leftPad ( )@calculatedFrom(
-    ""it's"" )	repeat crc
-    stringy`
-` ,@lengthOf(// `tick` ""quote"" 'q'
-metadata ) repeat falsey{ char[]
-Foo `a\` , match leftPad //	t
-as  BodyLength {
-""CRC32"": body , ""1"": x
-,""a\\"":	calculatedFrom,
-[
-    // @lengthOf(
-    1
-,00]
-:
-float }
-, repeat
-    char calculatedFrom , Foo { u64  Header `
-` ,}
-, } , }
-")).
-Eval vm_compute in ("<<<M4041>>>" ++ check (runes_of_ascii "  options
-    {LittleEndian =false
-
-;
-	FixedStringPadFromLeft=  false ;
-FixedStringPadChar =
-
-    ' ' ;
-
-    }packet	Fill { uint16
-
-    Qty
-
-    ,
-    uint64
-	clOrdID
-
-,repeat
-i64
-    Flags , }  packet
-
-    Ack	{zchar[  7
-
-]
-clOrdID ,
-
-    u64 
-lastPx
-, char[] Note 
-, repeat
-
-Fill , 
-int32 count	, }	packet
-    Quote {
-	u8	venue	, InRef40	{char[]
-Qty, 
-}
-, 
-zchar[
-    5
-
-]
-Flags, @rightPad	(
-
-    '\x00'
-
-    ) 
-char[ 12
-    ]
-    msgKind
-, }packet Logout 
-{ InSym79 {
-int32
-Qty,
-	Fill
-
-,
-char[
-    3 ] x
-,	repeat
-InNote29
-{ i16
-
-price , 
-Ack ,	f64 x ,
-zchar[ 8 
-]	count,}
-	, }
-    , }
-root packet 
-Logon {zchar[
-    1
-]
-
-sym
-,	u32
-count ,
-
-    u16	tag7 @lengthOf( Body) , match
-    count  as Body
-	{[ 122 
-, 152
-]
-:
-
-Ack
-,	118 
-:Logout
-
-    ,
-	61
-:Quote	,161
-:
-
-    Fill
-
-    ,  } ,
-    u32
-    Acct
-	@calculatedFrom( ""CRC32""
-    )
-
-    ,	} ")).
-Eval vm_compute in ("<<<M8>>>" ++ check (runes_of_ascii "packet leftPad
-    { @tag( 3 )
-    @tag( // trailing space 
-255 ) @tag( 7 ) Packet @calculatedFrom(
-    ""\n"" )
-    ,
-    @calculatedFrom(
-//x
-/// triple
-""abc""
-)
-    repeat
-    f32a
-    trueish `// not a comment` ,
-    match
-    /// triple
-    calculatedFrom
-as stringy { [	1
-,
-    // @lengthOf(
-    65535 ] :
-    u  ,}
-// `tick` ""quote"" 'q'
-/// triple
-, zchar[ 10 ] o `` , @lengthOf(calculatedFrom
-)
-char x_y_z ,char[] BodyLength ,stringy o
-`line1
-line2` ,
-@tag( 00 )options1  {// @lengthOf(
-float32 asx
-@lengthOf( roots ) ,
-// " ++ [128512]%N ++ runes_of_ascii " emoji
-// `tick` ""quote"" 'q'
-match Z9_
-as
-int
-    {""{,}""
-: A [ // " ++ [27880; 37322]%N ++ runes_of_ascii "
-""a\""b""  ,
-""it's""
-    ] :	repeatCount ,1 :
-    float , ""a\\"": zchar// `tick` ""quote"" 'q'
-[0 , ""abc"" ,0,  00,
-0
-    ,
-""" ++ [128512]%N ++ runes_of_ascii """ ]: T
-, 0123456789	: As , }
-    , }, @lengthOf(
-    msg_type ) i8
-matchKey , repeat
-len len `a\`
-,	}")).
-Eval vm_compute in ("<<<M383>>>" ++ check (runes_of_ascii "packet repeatCount{
-    @tag(1
-) @leftPad
-(' ')	@leftPad
-    (
-    // c
-    '\x00'
-    ) int16
-trueish
-@lengthOf( len) `// not a comment` ,@calculatedFrom(	""it's"")
-f64 trueish
-@lengthOf( pack ), i64
-/// triple
-//x
-int
-    `u8 x,`,  int16 Packet, repeat trueish{ char[ 65535 ] int @lengthOf( Foo ) `crlf
-line`
-    , },	match chars
-as u128 { 0123456789 :
-uint8x ,	""1""
-    : A
-    // `tick` ""quote"" 'q'
-    , ""packet""	:
-    matchKey
-,0
-: crc ,""abc"" :
-T ,} ,
-@rightPad (// " ++ [27880; 37322]%N ++ runes_of_ascii "
-) match
-//	t
-//x
-a1 as
-    u128 {3
-//
-// @lengthOf(
-:	lengthOf	, ""a\\"": trueish
-007 :
-rootA }
-    ,@leftPad ( ' '
-) string_ `tab	here`
-    , packetx
-    @lengthOf( Header ) , @tag(255	) @tag( 42 ) char[]packetx, // `tick` ""quote"" 'q'
-}
-    options { rootA // a // b
-=
-// c
-//	t
-' ' x_y_z = int8
-}")).
-Eval vm_compute in ("<<<M940>>>" ++ check (runes_of_ascii "
-root packet As
-{ repeat
-    //	t
-    x
-    msg_type ,}MetaData crc { // c
-u8 x , } root packet
-    // " ++ [128512]%N ++ runes_of_ascii " emoji
-    Logon{ @calculatedFrom(
-""1"" )
-@rightPad (  ' ') @leftPad
-( ) string msg_type @lengthOf(
-uint8x )	`a\`
-, match calculatedFrom
-as i8i8
-{ [
-""\" ++ [233]%N ++ runes_of_ascii """ ]  : options1 , // c
-1
-: asx
-, [ 42,
-42
-    //
-    ,//	t
-""" ++ [28040; 24687]%N ++ runes_of_ascii """// `tick` ""quote"" 'q'
-,"""" ,// " ++ [128512]%N ++ runes_of_ascii " emoji
-7] // @lengthOf(
-: x_y_z,  [// " ++ [27880; 37322]%N ++ runes_of_ascii "
-0//x
-] :
-    // packet A { u8 x, }
-    asx
-    //
-    7:
-    u8x [
-7
-    ] :u , } ,} MetaData repeatCount
-    { float Foo
-    , As //	t
-i8i8	,} packet tag {@leftPad (
-' '
-) match Z9_ as msg_type {
-    //
-    [ 10
-, ""a\""b"" ,0 ,255 , 7 ,0123456789 , 10
-]: Logon ,
-    """ ++ [233]%N ++ runes_of_ascii "t" ++ [233]%N ++ runes_of_ascii """: a1 , 7
-// packet A { u8 x, }
-/// triple
-: i64_  ,  255
-:	leftPad
-    }
-    , }
-")).
-Eval vm_compute in ("<<<M1099>>>" ++ check (runes_of_ascii "packet A
-{ repeat//
-Logon, match	falsey as
-    len { ""x y""
-: _x
-10 : Packet
-    1 : x ,
-    }, string
-_x , @calculatedFrom(
-    // " ++ [27880; 37322]%N ++ runes_of_ascii "
-    ""\" ++ [233]%N ++ runes_of_ascii """)
-    char[
-    10 ] leftPad  `doc`
-    ,
-    }
-packet tag {@calculatedFrom(""" ++ [128512]%N ++ runes_of_ascii """ )	repeat  Logon { match
-    a1 as asx {
-[ 0123456789
-, 3 ] : T , 1 : Foo ,// " ++ [27880; 37322]%N ++ runes_of_ascii "
-[
-42 ,
-    42 ]
-    // " ++ [27880; 37322]%N ++ runes_of_ascii "
-    :  i64_	,
-[007 //
-]
-:
-Header , }
-    , repeat zchar[ 0
-] As, repeat char body
-    ,
-},} packet
-    u
-{ @calculatedFrom(
-    """ ++ [233]%N ++ runes_of_ascii "t" ++ [233]%N ++ runes_of_ascii """ ) @calculatedFrom( // trailing space 
-""abc""	)
-    @tag(
-00
-    //x
-    )	string_ ,
-    repeat string crc
-    , match
-trueish as Foo {
-// trailing space 
-//
-[10 , 255 ] : float
-    } , match As as zchar{
-    /// triple
-    10:T } ,
-//
-//x
-}")).
-Eval vm_compute in ("<<<M3900>>>" ++ check (runes_of_ascii "MetaData roots {
-    charz matchKey `two words`,
-    char[65535] T `// not a comment`,
-    char[] tag,
-    string a1 `two words`,
-}
-
-root packet stringy {
-    repeat roots {
-        repeat calculatedFrom len,
-    },
-    @tag(42)
-    @rightPad('0')
-    @tag(007)
-    f32 lengthOf @lengthOf(tag) `crlf
-        line`,
-    int32 chars,
-    zchar[3] rootA @calculatedFrom(""a\""b""),
-    @rightPad()
-    @calculatedFrom(""" ++ [128512]%N ++ runes_of_ascii """)
-    @tag(0123456789)
-    Foo {
-        char[] u8x @lengthOf(charz),
-        A,
-    },
-    match repeatCount as body {
-        ""\n"" : T,
-        [""" ++ [128512]%N ++ runes_of_ascii """, 255] : lengthOf,
-    },
-    @calculatedFrom(""x y"")
-    u8 packetx @calculatedFrom(""CRC32"") `tab	here`,
-}")).
-Eval vm_compute in ("<<<M4366>>>" ++ check (runes_of_ascii "root packet options1 {
-    float @calculatedFrom(""a	b""),
-    @leftPad()
-    match lengthOf as f32a {
-        ""1"" : f32a,
-        ""{,}"" : falsey,
-        // a // b
-    },
-    // a // b
-    // packet A { u8 x, }
-}
-
-packet T {
-    @tag(7)
-    @lengthOf(f32a)
-    @rightPad()
-    char[] msg_type @calculatedFrom(""\" ++ [233]%N ++ runes_of_ascii """) `" ++ [28040; 24687; 31867; 22411]%N ++ runes_of_ascii "`,
-    options1 u128 `// not a comment`,
-    // packet A { u8 x, }
-    @rightPad(' ')
-    char[1] metadata @calculatedFrom(""" ++ [128512]%N ++ runes_of_ascii """) `doc`,
-}
-
-packet u8x {
-    roots @lengthOf(f32a),
-    @calculatedFrom(""a\""b"")
-    @tag(00)
-    @leftPad('\x00')
-    MetaDataX {
-        int @calculatedFrom(""`tick`"") `
-        `,
-    },
-}")).
-Eval vm_compute in ("<<<M528>>>" ++ check (runes_of_ascii "
-packet x_y_z // " ++ [27880; 37322]%N ++ runes_of_ascii "
-{ x_y_z @calculatedFrom(""CRC32"" )
-, x{ char[	0123456789 ]
-    msg_type @lengthOf( float
-    ), body
-    calculatedFrom `line1
-line2`
-, match
-Header
-as stringy
-    { [ 255 ] :x , 10: options1 // trailing space 
-, } ,
-    } , repeat char[] options1 `u8 x,`// " ++ [128512]%N ++ runes_of_ascii " emoji
-, metadata @calculatedFrom(""\" ++ [233]%N ++ runes_of_ascii """
-    //
-    )
-`` , string
-falsey ,
-    @rightPad
-    // packet A { u8 x, }
-    ( ' '
-) @tag( 007 ) string repeatCount ,
-    options1 @calculatedFrom(
-// c
-//
-""packet"")// @lengthOf(
-,
-@lengthOf(
-    BodyLength ) char[] matchKey//x
-@calculatedFrom( ""a	b"" ),} // packet A { u8 x, }")).
-Eval vm_compute in ("<<<M400>>>" ++ check (runes_of_ascii "packet crc {
-// packet A { u8 x, }
-// trailing space 
-Logon ,
-    } options { msg_type = '\x00'
-;
-    }
-    packet falsey {
-char[
-0123456789
-] calculatedFrom@calculatedFrom( ""packet""//
-)`say ""hi""`, match As as o { 65535// packet A { u8 x, }
-: A , """" : _x , ""`tick`"" :zchar,
-0123456789 :calculatedFrom , } ,
-    @tag( 00 )  As {
-char[] calculatedFrom ,
-} , float32 zchar
-, char[ 255 ] lengthOf,
-    @lengthOf(chars
-    // " ++ [27880; 37322]%N ++ runes_of_ascii "
-    )
-@lengthOf( // c
-a1 ) body  @calculatedFrom(""// no comment"" )
-`crlf
-line`	,} root  packet
-    _x
-{ @calculatedFrom(
-    ""a\\""
-) repeat
-i32	o ,}")).
-Eval vm_compute in ("<<<M364>>>" ++ check (runes_of_ascii "
-packet chars  { repeat
-    u64 As`" ++ [233]%N ++ runes_of_ascii "` ,@tag( 0 )repeat
-T metadata
-    ``	,
-    }packet Z9_{
-    @rightPad
-    (//
-'0'
-    // " ++ [128512]%N ++ runes_of_ascii " emoji
-    )
-    match u as
-lengthOf
     {
-""abc""/// triple
-: T
-, ""CRC32"" //x
-:  matchKey
-[ """ ++ [233]%N ++ runes_of_ascii "t" ++ [233]%N ++ runes_of_ascii """ ,  """ ++ [28040; 24687]%N ++ runes_of_ascii """, 65535, 65535 , ""x y""
-    ]
-: metadata""it's"" : i8i8, // packet A { u8 x, }
-255 : trueish , """":u128 ,	} , } MetaData u8x {
-zchar[ 255
-]  zchar ,
-    // `tick` ""quote"" 'q'
-    uint32 uint8x
-`" ++ [233]%N ++ runes_of_ascii "`, uint8 trueish ,
-    // packet A { u8 x, }
-    i64	falsey
-,
-_x MetaDataX ,string
-_x
-// trailing space 
-//
-, } //	t")).
-Eval vm_compute in ("<<<M4083>>>" ++ check (runes_of_ascii "
+	3 :
+i64_
 
-  packet o{
-repeat
-	MetaDataX	,
+    , } ,
 
-    uint64 f32a  /// triple
+char[
 
-`" ++ [233]%N ++ runes_of_ascii "`
-,
+255
+	]  o
+	@lengthOf(	leftPad )  `u8 x,` 
+,	} MetaData o
+{ float roots ,	x_y_z 
+MetaDataX 
+, packetx zchar , }
+")).
+Eval vm_compute in ("<<<M1648>>>" ++ check (runes_of_ascii "
 
-    f32
-packetx`doc`	,
-leftPad  {
-repeat len x ,zchar[ 0123456789
-    // packet A { u8 x, }
+  root
+	packet
 
-	]tag
-	@lengthOf( 
-MetaDataX
-
-)
-    ,
-    chars
-{ 
-zchar[
-        // " ++ [27880; 37322]%N ++ runes_of_ascii "
-		// `tick` ""quote"" 'q'
-	65535 ]
-u8x
+i8i8 
+{ BodyLength
 
     `" ++ [28040; 24687; 31867; 22411]%N ++ runes_of_ascii "`
-	,	u16
-	BodyLength	@calculatedFrom(
-
-    ""`tick`""  ) 
-`line1
-line2`	, 
-char[]
-stringy 
-,	repeat
-
-    i64_
-charz	`crlf
-line`  , // trailing space 
-
-	} 
-	    // packet A { u8 x, }
-	  ,f32  msg_type
-	,  }
 ,
 
-    x ``
-
-,}
-")).
-Eval vm_compute in ("<<<M793>>>" ++ check (runes_of_ascii "options{ Header = ' ' } root
-packet lengthOf{ uint8 chars , @leftPad (  '\x00' ) repeat
-    u128 {match	Header as	msg_type{ 007	:roots  , }
-// c
-//	t
-, A
-o ,
-match Header as
-options1 { 00 : float,""1"": int , """ ++ [128512]%N ++ runes_of_ascii """
-: T , [
-    ""a\\""
-// " ++ [128512]%N ++ runes_of_ascii " emoji
-// packet A { u8 x, }
-,""// no comment""
-// a // b
-// packet A { u8 x, }
-] //	t
-: Foo	0123456789	:
-    matchKey , } ,repeat
-    o ,
-}, } packet x_y_z { repeat stringy A  , @tag(  42 ) char[
-    007 ]  Logon ,@leftPad ('\x00'
-    )  zchar[
-007 ]MetaDataX
-, }")).
-Eval vm_compute in ("<<<M1121>>>" ++ check (runes_of_ascii "options{ Logon =
-int32
-; x_y_z // trailing space 
-= ""1"" f32a = 007 BodyLength =
-    zchar[
-    // " ++ [27880; 37322]%N ++ runes_of_ascii "
-    3
-]
-    ; MetaDataX = false //x
-;
-} packet // c
-A { match A
-    as A {
-    42 : _x ,
-} , }
-packet int
-{ //
-_x
-    asx
-,	} packet	trueish {
-float	@calculatedFrom(
-// " ++ [128512]%N ++ runes_of_ascii " emoji
-// @lengthOf(
-"""" ) ,
-zchar[
-65535 ] Pad@calculatedFrom(""a	b"" ) `
-` //	t
-,
-}options
-    {
-    // " ++ [128512]%N ++ runes_of_ascii " emoji
-    f32a =	zchar[ 42 ] ; body = ""`tick`"" ; //
-As =
-    true
-    tag=3 ;
-packetx = true
-}
-")).
-Eval vm_compute in ("<<<M480>>>" ++ check (runes_of_ascii "MetaData
-    o {
-    } packet BodyLength { @tag(
-255 ) zchar[ 00 ]
-    leftPad@lengthOf( float  )
-`" ++ [233]%N ++ runes_of_ascii "` , }	packet
-asx {
-    @leftPad ( )	char[] _x,
-char[ 65535
-    ] /// triple
-trueish
-@calculatedFrom( ""a\""b"") ,
-int64 u
-    , match x as u8x { 255 //	t
-:/// triple
-o, 65535: asx ,  ""a\\""
-:
-string_
-, ""\" ++ [233]%N ++ runes_of_ascii """
-    : f32a, 65535
-: //	t
-x_y_z
-    ,  7
-:uint8x	}
-    , repeat msg_type { u128 charz `` , u64 options1	, repeat  a1 `` ,	} , repeatCount  ,}
-// c
-")).
-Eval vm_compute in ("<<<M1035>>>" ++ check (runes_of_ascii "// @lengthOf(
-MetaData	msg_type
-{} MetaData Logon { i64 uint8x ,
-o u128  ,}packet
-    body {
-@calculatedFrom( ""a	b"" ) uint8x`` ,} root
-packet  roots{ repeat len f32a `crlf
-line` , @rightPad( '\x00'
-) repeat i8i8
-    { zchar @lengthOf(
-    packetx ) `a\`,
-repeat
-msg_type , char[]
-    o `" ++ [233]%N ++ runes_of_ascii "`	, char[
-// " ++ [27880; 37322]%N ++ runes_of_ascii "
-//
-42
-]
-roots // @lengthOf(
-,
-//x
-// `tick` ""quote"" 'q'
-}  , } MetaData
-    pack
-//	t
-// trailing space 
-{
-repeatCount
-charz , }")).
-Eval vm_compute in ("<<<M4557>>>" ++ check (runes_of_ascii "packet msg_type {
-    uint32 i8i8 `say ""hi""`,
-    match packetx as asx {
-        0123456789 : msg_type,
-        1 : _x,
-    },
-    repeat As {
-        f32 body,
-        string msg_type,
-        f64 roots,
-    },
-    char[] options1 `say ""hi""`,
-}
-
-options {
-    msg_type = true;
-}
-
-packet crc {
-    asx x_y_z,
-}
-
-MetaData T {
-    T i8i8,
-    int16 zchar,
-    int tag,
-    string x_y_z `
-        `,
-    float32 metadata,
-}")).
-Eval vm_compute in ("<<<M704>>>" ++ check (runes_of_ascii "
-packet
-matchKey { @calculatedFrom( """ ++ [28040; 24687]%N ++ runes_of_ascii """
-) @lengthOf(
-lengthOf ) @calculatedFrom( """ ++ [28040; 24687]%N ++ runes_of_ascii """
-) match
-    /// triple
-    trueish as options1// trailing space 
-{ 42
-:matchKey,} , // " ++ [128512]%N ++ runes_of_ascii " emoji
-i64
-// trailing space 
-//x
-u8x , }MetaData float
-    { options1 u8x// " ++ [27880; 37322]%N ++ runes_of_ascii "
-, options1
-//
-//
-x	, string u `it's` , pack Header `u8 x,` ,
-char[] i64_ , } options{ } packet o  { } //
-MetaData
-    //	t
-    MetaDataX
-{  }
-")).
-Eval vm_compute in ("<<<M3980>>>" ++ check (runes_of_ascii "packet chars {
-}
-
-root packet chars {
-    zchar[00] lengthOf `" ++ [28040; 24687; 31867; 22411]%N ++ runes_of_ascii "`,
-}
-
-root packet tag {
-    @rightPad('\x00')
-    zchar[3] Foo @lengthOf(pack),
-    zchar[10] tag,
-    repeat uint32 int,
-    @rightPad('\x00')
-    @lengthOf(f32a)
-    @rightPad(' ')
-    Packet int,
-    match len as i8i8 {
-        10 : chars,
-    },
-    @calculatedFrom(""x y"")
-    Z9_ @calculatedFrom(""it's""),
-}//	t")).
-Eval vm_compute in ("<<<M1308>>>" ++ check (runes_of_ascii "// `tick` ""quote"" 'q'
-packet i8i8	{ // a // b
-@rightPad( )  body @calculatedFrom(// a // b
-""\" ++ [233]%N ++ runes_of_ascii """ ) , i64 Header @lengthOf(
-trueish
-) , @tag( 65535 )  @lengthOf( tag//
-) @tag( 255
-)
-    repeat
-    float32 repeatCount
-, char[
-1 ] rootA`u8 x,` , @lengthOf(
-    _x ) @lengthOf(
-    Header  ) @calculatedFrom( """"
-)
-//x
-// trailing space 
-i8i8 pack// trailing space 
-, }
-
-")).
-Eval vm_compute in ("<<<M1037>>>" ++ check (runes_of_ascii "packet crc {
-    match string_ as matchKey {
-7 : matchKey ,
-    007 :
-x//	t
-, 65535 :	BodyLength
-[
-    00
-    , 3 ] :
-u128
-,[  255 , 0  ] :
-leftPad ,
-""it's"":
-//x
-// trailing space 
-u128 ,}
-    ,
-@calculatedFrom( """"
-//x
-/// triple
-)
-match MetaDataX as int {[ 3
-] :
-As
-    ,
-},
-    } packet falsey {
-}//
-options { metadata
-=// " ++ [128512]%N ++ runes_of_ascii " emoji
-255//x
-; }
-")).
-Eval vm_compute in ("<<<M4397>>>" ++ check (runes_of_ascii "// " ++ [128512]%N ++ runes_of_ascii " emoji
-options {
-}
-
-packet a1 {
-    // packet A { u8 x, }
-    //x
-    @lengthOf(Foo)
-    pack {
-        repeat matchKey leftPad,
-        zchar[7] zchar `{ , }`,
-        charz @lengthOf(x_y_z) `
-                `,
-    },
-}
-
-root packet roots {
-}
-
-options {
-    calculatedFrom = false;
-    o = int64;
-    u = ""a\\""
-    zchar = 42;
-}")).
-Eval vm_compute in ("<<<M1876>>>" ++ check (runes_of_ascii "MetaData
-    u { }  options options {
-// c
-// @lengthOf(
-float = int8 ;rootA =false ; As =	int16 // `tick` ""quote"" 'q'
-repeatCount
-    // trailing space 
-    =
-    int16
-; u8x =
-    //	t
-    '\x00' ; } options	{
-    repeatCount
-= 0
-u128
-    //
-    = false ; i64_
-// trailing space 
-// `tick` ""quote"" 'q'
-= '0' ; //	t
-}
-")).
-Eval vm_compute in ("<<<M2068>>>" ++ check (runes_of_ascii "MetaData
-   @tag u { }  options {
-// c
-// @lengthOf(
-float = int8 ;rootA =false ; As =	int16 // `tick` ""quote"" 'q'
-repeatCount
-    // trailing space 
-    =
-    int16
-; u8x =
-    //	t
-    '\x00' ; } options	{
-    repeatCount
-= 0
-u128
-    //
-    = false ; i64_
-// trailing space 
-// `tick` ""quote"" 'q'
-= '0' ; //	t
-}
-")).
-Eval vm_compute in ("<<<M2036>>>" ++ check (runes_of_ascii "MetaData
-    u { }  options {
-// c
-// @lengthOf(
-float = int8 ;rootA =false ; As =	int16 // `tick` ""quote"" 'q'
-repeatCount
-    // trailing space 
-    =
-    int16
-; u8x =
-    //	t
-    '\x00' ; } options	{
-    repeatCount
-= 0
-u128
-    //
-    = false ; i64_
-// trailing space 
-// `tick` ""quote"" 'q'
-= = '0' ; //	t
-}
-")).
-Eval vm_compute in ("<<<M1867>>>" ++ check (runes_of_ascii "MetaData
-    u } {  options {
-// c
-// @lengthOf(
-float = int8 ;rootA =false ; As =	int16 // `tick` ""quote"" 'q'
-repeatCount
-    // trailing space 
-    =
-    int16
-; u8x =
-    //	t
-    '\x00' ; } options	{
-    repeatCount
-= 0
-u128
-    //
-    = false ; i64_
-// trailing space 
-// `tick` ""quote"" 'q'
-= '0' ; //	t
-}
-")).
-Eval vm_compute in ("<<<M2017>>>" ++ check (runes_of_ascii "MetaData
-    u { }  options {
-// c
-// @lengthOf(
-float = int8 ;rootA =false ; As =	int16 // `tick` ""quote"" 'q'
-repeatCount
-    // trailing space 
-    =
-    int16
-; u8x =
-    //	t
-    '\x00' ; } options	{
-    repeatCount
-= 0
-u128
-    //
-    false = ; i64_
-// trailing space 
-// `tick` ""quote"" 'q'
-= '0' ; //	t
-}
-")).
-Eval vm_compute in ("<<<M2025>>>" ++ check (runes_of_ascii "MetaData
-    u { }  options {
-// c
-// @lengthOf(
-float = int8 ;rootA =false ; As =	int16 // `tick` ""quote"" 'q'
-repeatCount
-    // trailing space 
-    =
-    int16
-; u8x =
-    //	t
-    '\x00' ; } options	{
-    repeatCount
-= 0
-u128
-    //
-    = false  i64_
-// trailing space 
-// `tick` ""quote"" 'q'
-= '0' ; //	t
-}
-")).
-Eval vm_compute in ("<<<M1970>>>" ++ check (runes_of_ascii "MetaData
-    u { }  options {
-// c
-// @lengthOf(
-float = int8 ;rootA =false ; As =	int16 // `tick` ""quote"" 'q'
-repeatCount
-    // trailing space 
-    =
-    int16
-; u8x =
-    //	t
-     ; } options	{
-    repeatCount
-= 0
-u128
-    //
-    = false ; i64_
-// trailing space 
-// `tick` ""quote"" 'q'
-= '0' ; //	t
-}
-")).
-Eval vm_compute in ("<<<M4513>>>" ++ check (runes_of_ascii "packet BodyLength {
-}
-
-root packet Logon {
-    @tag(10)
-    @tag(0123456789)
-    //x
-    repeat float32 Pad,
-}
-
-packet f32a {
-    // `tick` ""quote"" 'q'
-    @rightPad(' ')
-    // a // b
-    repeat chars body,
-    x_y_z @lengthOf(matchKey),
-    repeat float64 Logon,
-    repeat zchar[4294967296] Foo,
-}")).
-Eval vm_compute in ("<<<M305>>>" ++ check (runes_of_ascii "options
-{
-}
-root
-    // a // b
-    packet x //	t
-{ match
-    len as x{ [	7 , 42 ,	007 , //x
-255 // trailing space 
-, ""// no comment""
-// `tick` ""quote"" 'q'
-// " ++ [128512]%N ++ runes_of_ascii " emoji
-]:x_y_z, ""`tick`"" : u128
-, 3 : string_
-    /// triple
-    ,
-[	""CRC32""  ] : trueish ,4294967296 :Foo ,
-[ 0 ]
-: lengthOf } , }")).
-Eval vm_compute in ("<<<M575>>>" ++ check (runes_of_ascii "packet	crc{ @calculatedFrom(
-    // `tick` ""quote"" 'q'
-    """" ) int8 len @lengthOf(lengthOf ) , @leftPad
-/// triple
-// " ++ [27880; 37322]%N ++ runes_of_ascii "
-('\x00' )  _x //x
-@calculatedFrom(
-    """ ++ [28040; 24687]%N ++ runes_of_ascii """
-), string leftPad @lengthOf(	packetx
-    )
-`say ""hi""` ,// packet A { u8 x, }
-} options
-{u128 =
-    65535 ; }")).
-Eval vm_compute in ("<<<M4457>>>" ++ check (runes_of_ascii "MetaData a1 {
-    //x
-    u8 u8x,
-}
-
-options {
-    float = '0';
-    // @lengthOf(
-    pack = string;
-}
-
-MetaData packetx {
-    tag Foo `
-        `,
-    uint8x asx,
-    uint16 body,
-    T x,// packet A { u8 x, }
-    float a1 `
-        `,
-    matchKey crc,
-}
-// a // b")).
-Eval vm_compute in ("<<<M1540>>>" ++ check (runes_of_ascii "packet
-//	t
-// trailing space 
-_x {
-// packet A { u8 x, }
-// c
-char[
-3
-    ] u8x @lengthOf(
-u8x ) MetaData @calculatedFrom(""" ++ [128512]%N ++ runes_of_ascii """ // @lengthOf(
-)
-i16	Foo
-@lengthOf(	string_
-    )`doc`	, repeat	i64 metadata , @lengthOf( string_
-) i8 // c
-u  `line1
-line2`	,
-}
-")).
-Eval vm_compute in ("<<<M1667>>>" ++ check (runes_of_ascii "packet
-//	t
-// trailing space 
-_x {
-// packet A { u8 x, }
-// c
-char[
-3
-    ] u8x @lengthOf(
-u8x ) , @calculatedFrom(""" ++ [128512]%N ++ runes_of_ascii """ // @lengthOf(
-)
-i16	Foo
-@lengthOf(	string_
-    )`doc`	, repeat	'1'i64 metadata , @lengthOf( string_
-) i8 // c
-u  `line1
-line2`	,
-}
-")).
-Eval vm_compute in ("<<<M1659>>>" ++ check (runes_of_ascii "packet
-//	t
-// trailing space 
-_x {
-// packet A { u8 x, }
-// c
-char[
-3
-    ] u8x @lengthOf(
-u8x ) , @calculatedFrom(""" ++ [128512]%N ++ runes_of_ascii """ // @lengthOf(
-)
-i16	Foo
-@lengthOf(	string_
-    )`doc`	%, repeat	i64 metadata , @lengthOf( string_
-) i8 // c
-u  `line1
-line2`	,
-}
-")).
-Eval vm_compute in ("<<<M1584>>>" ++ check (runes_of_ascii "packet
-//	t
-// trailing space 
-_x {
-// packet A { u8 x, }
-// c
-char[
-3
-    ] u8x @lengthOf(
-u8x ) , @calculatedFrom(""" ++ [128512]%N ++ runes_of_ascii """ // @lengthOf(
-)
-i16	Foo
-@lengthOf(	string_
-    ),	`doc` repeat	i64 metadata , @lengthOf( string_
-) i8 // c
-u  `line1
-line2`	,
-}
-")).
-Eval vm_compute in ("<<<M1630>>>" ++ check (runes_of_ascii "packet
-//	t
-// trailing space 
-_x {
-// packet A { u8 x, }
-// c
-char[
-3
-    ] u8x @lengthOf(
-u8x ) , @calculatedFrom(""" ++ [128512]%N ++ runes_of_ascii """ // @lengthOf(
-)
-i16	Foo
-@lengthOf(	string_
-    )`doc`	, repeat	i64 metadata , @lengthOf( string_
-) ) // c
-u  `line1
-line2`	,
-}
-")).
-Eval vm_compute in ("<<<M1646>>>" ++ check (runes_of_ascii "packet
-//	t
-// trailing space 
-_x {
-// packet A { u8 x, }
-// c
-char[
-3
-    ] u8x @lengthOf(
-u8x ) , @calculatedFrom(""" ++ [128512]%N ++ runes_of_ascii """ // @lengthOf(
-)
-i16	Foo
-@lengthOf(	string_
-    )`doc`	, repeat	i64 metadata , @lengthOf( string_
-) i8 // c
-u  `line1
-line2`")).
-Eval vm_compute in ("<<<M615>>>" ++ check (runes_of_ascii "
-MetaData
-    Header { int16 //	t
-i64_ , } packet
-u8x
-{@tag(4294967296 ) zchar[
-//	t
-// " ++ [27880; 37322]%N ++ runes_of_ascii "
-255 ] MetaDataX`
-`,} options { pack = ""a	b"";crc =
-    true _x
-    =
-4294967296 ;Z9_ = ' ' } root packet// a // b
-repeatCount  { char[]
-u8x ,  }
-")).
-Eval vm_compute in ("<<<M4159>>>" ++ check (runes_of_ascii "options
-
-{
-    trueish
-
-= ""`tick`""
-string_ = """ ++ [233]%N ++ runes_of_ascii "t" ++ [233]%N ++ runes_of_ascii """
-    // c
-    	}root  packet
-
-    body{
-	stringy @calculatedFrom(
-    ""a	b""
-
-    ) `line1
-line2` 
-, }
-packet
-
-Logon
-
-{@leftPad (
-	' ' ) 	 //	t
-  u16
-
-string_  `u8 x,` 
-, }
-")).
-Eval vm_compute in ("<<<M4000>>>" ++ check (runes_of_ascii "packet len {
-    @tag(255)
-    repeat zchar[007] roots,
-    leftPad {
-        //	t
-        f32 calculatedFrom,
-        f32 lengthOf,
-        u32 calculatedFrom,
-    },
-    x x,
-}
-
-MetaData u128 {
-    A i8i8 `two words`,
-}")).
-Eval vm_compute in ("<<<M3943>>>" ++ check (runes_of_ascii "options {
-}
-
-MetaData pack {
-    string T,
-    msg_type stringy `" ++ [233]%N ++ runes_of_ascii "`,
-}
-
-// " ++ [128512]%N ++ runes_of_ascii " emoji
-packet a1 {
-    // " ++ [128512]%N ++ runes_of_ascii " emoji
-    // packet A { u8 x, }
-    repeat i32 x,
-    i16 msg_type @calculatedFrom(""it's"") `two words`,
-}// " ++ [27880; 37322]%N)).
-Eval vm_compute in ("<<<M9>>>" ++ check (runes_of_ascii "options
-    {
-As= ""1"" ; matchKey = 0123456789 options1
-    =
-0123456789 ;// a // b
-asx// c
-=
-    ""CRC32"" ;
-    tag =00;
-}// trailing space 
-packet
-matchKey { @calculatedFrom(
-    ""abc""	) int32 repeatCount ,
-}
-")).
-Eval vm_compute in ("<<<M1677>>>" ++ check (runes_of_ascii "options { { trueish = ""`tick`"" ; string_= """ ++ [233]%N ++ runes_of_ascii "t" ++ [233]%N ++ runes_of_ascii """
-    // c
-    } root
-    packet body { stringy @calculatedFrom(
-""a	b"" ) `line1
-line2` , }
-packet Logon {
-    @leftPad(
-    ' ' ) //	t
-u16 string_ `u8 x,` ,
-}
-")).
-Eval vm_compute in ("<<<M1849>>>" ++ check (runes_of_ascii "options { trueish = ""`tick`"" ; string_= """ ++ [233]%N ++ runes_of_ascii "t" ++ [233]%N ++ runes_of_ascii """
-    // c
-    } root
-    packet body { stringy @calculatedFrom(
-""a	b"" ) `line1
-line2` , }
-packet Logon {
-    " ++ [233]%N ++ runes_of_ascii "@leftPad(
-    ' ' ) //	t
-u16 string_ `u8 x,` ,
-}
-")).
-Eval vm_compute in ("<<<M1778>>>" ++ check (runes_of_ascii "options { trueish = ""`tick`"" ; string_= """ ++ [233]%N ++ runes_of_ascii "t" ++ [233]%N ++ runes_of_ascii """
-    // c
-    } root
-    packet body { stringy @calculatedFrom(
-""a	b"" ) `line1
-line2` , }
-Logon packet {
-    @leftPad(
-    ' ' ) //	t
-u16 string_ `u8 x,` ,
-}
-")).
-Eval vm_compute in ("<<<M1826>>>" ++ check (runes_of_ascii "options { trueish = ""`tick`"" ; string_= """ ++ [233]%N ++ runes_of_ascii "t" ++ [233]%N ++ runes_of_ascii """
-    // c
-    } root
-    packet body { stringy @calculatedFrom(
-""a	b"" ) `line1
-line2` , }
-packet Logon {
-    @leftPad(
-    ' ' ) //	t
-u16 string_ `u8 x,` 
-}
-")).
-Eval vm_compute in ("<<<M1776>>>" ++ check (runes_of_ascii "options { trueish = ""`tick`"" ; string_= """ ++ [233]%N ++ runes_of_ascii "t" ++ [233]%N ++ runes_of_ascii """
-    // c
-    } root
-    packet body { stringy @calculatedFrom(
-""a	b"" ) `line1
-line2` , }
- Logon {
-    @leftPad(
-    ' ' ) //	t
-u16 string_ `u8 x,` ,
-}
-")).
-Eval vm_compute in ("<<<M543>>>" ++ check (runes_of_ascii "// `tick` ""quote"" 'q'
-MetaData body{  zchar[ 0 ] asx // trailing space 
-`a\` , float crc
-,f32 trueish `crlf
-line`	,// " ++ [128512]%N ++ runes_of_ascii " emoji
-uint64 float ,body//	t
-u
-    `
-`
-    ,
-    int16 stringy //	t
-,}
-")).
-Eval vm_compute in ("<<<M605>>>" ++ check (runes_of_ascii "MetaData body {string	MetaDataX `" ++ [28040; 24687; 31867; 22411]%N ++ runes_of_ascii "`, }options{	zchar // packet A { u8 x, }
-=
-    false} packet chars// a // b
-{ @tag(
-42 )
-len roots ,@rightPad () Header @lengthOf( charz ) ,
-    }
-")).
-Eval vm_compute in ("<<<M295>>>" ++ check (runes_of_ascii "  MetaData x_y_z { string msg_type`" ++ [233]%N ++ runes_of_ascii "`, } packet chars{ repeat i32 metadata`say ""hi""` ,@leftPad ( ) @tag( 0123456789
-)repeat zchar[
-    // a // b
-    007]
-    //x
-    lengthOf , }
-")).
-Eval vm_compute in ("<<<M3577>>>" ++ check (runes_of_ascii "packet A {
-    u8 a,
-}
-packet B {
-    u16 b,
-}
-root packet P {
-    u8 K1,
-    u8 K2,
-    match K1 as M1 {
-        1 : A,
-    },
-    match K2 as M2 {
-        1 : B,
-    },
-}
-")).
-Eval vm_compute in ("<<<M323>>>" ++ check (runes_of_ascii "MetaData As  {
-// " ++ [128512]%N ++ runes_of_ascii " emoji
-// @lengthOf(
-a1 Pad , zchar[ 00 ] // `tick` ""quote"" 'q'
-body`// not a comment` ,
-crc uint8x `// not a comment` ,uint32
-packetx ``
-    ,}
-")).
-Eval vm_compute in ("<<<M1800>>>" ++ check (runes_of_ascii "options { trueish = ""`tick`"" ; string_= """ ++ [233]%N ++ runes_of_ascii "t" ++ [233]%N ++ runes_of_ascii """
-    // c
-    } root
-    packet body { stringy @calculatedFrom(
-""a	b"" ) `line1
-line2` , }
-packet Logon {
-    @leftPad")).
-Eval vm_compute in ("<<<M1835>>>" ++ check (runes_of_ascii "options { trueish = ""`tick`"" ; string_= """ ++ [233]%N ++ runes_of_ascii "t" ++ [233]%N ++ runes_of_ascii """
-    // c
-    } root
-    packet body { stringy @calculatedFrom(
-""a	b"" ) `line1
-line2` , }
-packet Logon {
-    @lef")).
-Eval vm_compute in ("<<<M2202>>>" ++ check (runes_of_ascii "options{
-_x
-= true
-} options
-{ o	= /// triple
-false
-    ; chars
-= ""\n"" } root packet	Pad
-/// triple
-// packet A { u@tag8 x, }
-{	chars
-    // a // b
-    ,}")).
-Eval vm_compute in ("<<<M4082>>>" ++ check (runes_of_ascii "  root packet	matchKey{
-
-zchar[
-3
-
-    ]
-    pack @calculatedFrom( ""a	b"")
-
-`doc`
-    ,	}
-
-    options
-	{ 
-}MetaData
-A  {
-int8
-	msg_type
-    // c
-
-,
-}
-")).
-Eval vm_compute in ("<<<M2398>>>" ++ check (runes_of_ascii "// c
-packet x { @lengthOf( metadata ) repeat lengthOf
-,a1{
-trueish	,// c
-repeat//	t
-MetaDataX ; } , zchar[
-    42	] rootA // `tick` ""quote"" 'q'
-,
-    }
-")).
-Eval vm_compute in ("<<<M920>>>" ++ check (runes_of_ascii "packet
-/// triple
-/// triple
-As
-{ }
-MetaData charz{
-i64 falsey ,A msg_type, char[ 3 ]
-trueish `say ""hi""` ,float32 calculatedFrom
-    ,
-string i8i8, }
-")).
-Eval vm_compute in ("<<<M3842>>>" ++ check (runes_of_ascii "
-root
-
-    packet	matchKey  { zchar[3	]
-	pack @calculatedFrom(
-""a	b""	)	`doc`  ,
-
-    } 
-
-    // c
-
-options
-{}
-MetaData
-A{	int8
-msg_type,
-
-    }")).
-Eval vm_compute in ("<<<M1286>>>" ++ check (runes_of_ascii "
-packet u { repeat char[// " ++ [27880; 37322]%N ++ runes_of_ascii "
-10] crc
-, repeat string x  ,  match
-//	t
-//
-charz as
-    tag{
-007 :
-options1
-    , } ,Packet @lengthOf(trueish
-) ,
-}")).
-Eval vm_compute in ("<<<M843>>>" ++ check (runes_of_ascii "options
-{
-crc
-//
-// a // b
-=
-    // packet A { u8 x, }
-    ""abc""
-    ; stringy =
-    '0' ;
-Logon
-= zchar[
-10  ]
-    float// a // b
-=
-    false	}
-")).
-Eval vm_compute in ("<<<M1188>>>" ++ check (runes_of_ascii "options{ roots=
-    char[ 7 ]
-len // c
-= i32 }
-    // a // b
-    MetaData u8x
-    {i64
-a1
-    , }
-packet metadata { @leftPad
-( ) int64 len, }
-")).
-Eval vm_compute in ("<<<M710>>>" ++ check (runes_of_ascii "root packet options1 {
-    }	options { u
-    =  4294967296
-    As=
-""abc""  f32a = ' ' ; len // packet A { u8 x, }
-=char[] ; uint8x
-= true}
-")).
-Eval vm_compute in ("<<<M3525>>>" ++ check (runes_of_ascii "root packet
-    // c1
-P
-    // c2
-{ // c3a
-  // c3b
-char // c4a
-  // c4b
-c , // c6
-u8 // c7a
-  // c7b
-x , // c9a
-  // c9b
-}
-    // c10
-")).
-Eval vm_compute in ("<<<M1285>>>" ++ check (runes_of_ascii "root	packet rootA
-/// triple
-//	t
-{
-    @lengthOf( A) zchar[
-    65535 ]len	`a\` ,  } root packet
-packetx
-{ uint8 i8i8 , }
-// c
-")).
-Eval vm_compute in ("<<<M523>>>" ++ check (runes_of_ascii "//
-MetaData i8i8 { } root packet
-    roots {
-repeat u16 BodyLength `
-` ,
-    } options {	string_ = """ ++ [233]%N ++ runes_of_ascii "t" ++ [233]%N ++ runes_of_ascii """ ; }
-packet i64_
-{}
-")).
-Eval vm_compute in ("<<<M3545>>>" ++ check (runes_of_ascii "packet B {
-    u8 a,
-}
-root packet P {
-    u8 K,
-    u64 L @lengthOf(Body),
-    match K as Body {
-        1 : B,
-    },
-}
-")).
-Eval vm_compute in ("<<<M3333>>>" ++ check (runes_of_ascii "root packet matchKey { zchar[ 3 ] pack @calculatedFrom( ""a	b"" )
-// c
-`doc` , } options { } MetaData A { int8 msg_type , }")).
-Eval vm_compute in ("<<<M3915>>>" ++ check (runes_of_ascii "
-
-  MetaData
-
-    body
-{
-    i64
-
-    pack	`it's` , }
-
-packet
-
-    stringy  // c
-	  { int16 calculatedFrom
-	,	} ")).
-Eval vm_compute in ("<<<M4115>>>" ++ check (runes_of_ascii "
-MetaData
-
-    float
-
-    { float64 
-  // c
-charz
-
-`
-`	,}
-    root	packet
-    chars{@rightPad (
-'0' 
-)	Foo ,
-
-} ")).
-Eval vm_compute in ("<<<M1407>>>" ++ check (runes_of_ascii "
-packet
-    falsey  Header@calculatedFrom(""packet""  ) , char[
-    0123456789 ] packetx
-    , } // `tick` ""quote"" 'q'")).
-Eval vm_compute in ("<<<M1362>>>" ++ check (runes_of_ascii "options {
-    x =
-    0  ;
-/// triple
-/// triple
-Header = ""1"" ; zchar
-    ='0' Pad= float64
-;
-} MetaData u128{	}
-")).
-Eval vm_compute in ("<<<M1452>>>" ++ check (runes_of_ascii "
-packet
-    falsey { Header@calculatedFrom(""packet""  ) , char[
-    0123456789 ] 
-    , } // `tick` ""quote"" 'q'")).
-Eval vm_compute in ("<<<M3880>>>" ++ check (runes_of_ascii "
-MetaData float 
-{ float64
-charz // c
-    `
-`,
-    } 
-root	packet chars{@rightPad
-
-( '0'
-    ) Foo,
-    } ")).
-Eval vm_compute in ("<<<M4425>>>" ++ check (runes_of_ascii "  MetaData
-    T{
-
-char[]
-packetx 	 //	t
-, 	 //
-  	Packet
-u ,
-    i32 
-_x
-	, uint16
-
-    asx
+    Header
 , 
+int16
+	len @lengthOf( 
+msg_type
+) `
+`  ,
+
+@leftPad  /// triple
+	( ' '	/// triple
+    	)
+@rightPad 	 // " ++ [27880; 37322]%N ++ runes_of_ascii "
+      (	// a // b
+) 	 // trailing space 
+  	@calculatedFrom( ""x y""  )
+	repeatCount 	 // @lengthOf(
+  @calculatedFrom(	/// triple
+
+	""packet"")
+
+`crlf
+line`,
+    @lengthOf(
+    falsey)
+
+roots @lengthOf(
+
+metadata  )
+	`line1
+line2`
+
+,	i8  i64_
+,
+    @tag(4294967296
+    )	@tag(3
+
+)  repeat
+zchar[
+    1
+]
+lengthOf ,	@lengthOf( Logon 
+  // `tick` ""quote"" 'q'
+	// `tick` ""quote"" 'q'
+)
+repeat asx
+{ stringy	float	`line1
+line2`	,
+Pad
+	,	}
+,
+
+    }
+")).
+Eval vm_compute in ("<<<M33>>>" ++ check (runes_of_ascii "root/// triple
+packet int{
+f32 i8i8 , uint8x /// triple
+zchar
+    `// not a comment`// a // b
+,
+    u64 u8x @lengthOf( u ) ,char[] i64_@lengthOf( crc
+    ), @lengthOf( packetx
+    )metadata i64_
+, } packet a1	{ zchar[ 65535
+] float, zchar[ 00
+    //	t
+    ]
+    matchKey
+,
+} options { crc =u64 } MetaData leftPad { trueish string_ ,  uint64 Header
+`" ++ [28040; 24687; 31867; 22411]%N ++ runes_of_ascii "` , }
+    // " ++ [128512]%N ++ runes_of_ascii " emoji
+    MetaData//x
+tag { zchar
+chars
+// " ++ [27880; 37322]%N ++ runes_of_ascii "
+//x
+,  repeatCount  lengthOf`
+` , i16
+u /// triple
+`tab	here` , lengthOf
+a1 ,u16 o
+    , char
+i64_  `two words` , }
+//x
+")).
+Eval vm_compute in ("<<<M223>>>" ++ check (runes_of_ascii "
+root packet // a // b
+matchKey
+    { @calculatedFrom(
+""// no comment"")match matchKey as crc { 65535:metadata , 255 :options1 , ""{,}"" :asx
+,
+    [ ""\" ++ [233]%N ++ runes_of_ascii """ , 00
+,	""""  , /// triple
+""{,}"" ,
+""a\\"" ]
+    : msg_type , 007: f32a ,//x
+} , @lengthOf(
+repeatCount) @leftPad ()
+    @calculatedFrom(  ""a\\"")float ,@tag( 42 ) u8 crc @calculatedFrom( //
+""" ++ [28040; 24687]%N ++ runes_of_ascii """// " ++ [27880; 37322]%N ++ runes_of_ascii "
+)
+, uint64
+BodyLength @lengthOf( f32a)
+    `" ++ [28040; 24687; 31867; 22411]%N ++ runes_of_ascii "` , tag a1 ,
+tag @calculatedFrom( ""`tick`""
+), } // trailing space ")).
+Eval vm_compute in ("<<<M1433>>>" ++ check (runes_of_ascii "// top
+packet
+    // c0
+float
+    // c1
+{
+    // c2
+repeat
+    // c3
+i8i8
+    // c4
+MetaDataX
+    // c5
+`it's`
+    // c6
+,
+    // c7
+rootA
+    // c8
+,
+    // c9
+repeat
+    // c10
+int8
+    // c11
+int
+    // c12
+,
+    // c13
+match
+    // c14
+repeatCount
+    // c15
+as
+    // c16
+x_y_z
+    // c17
+{
+    // c18
+""{,}""
+    // c19
+:
+    // c20
+Logon
+    // c21
+,
+    // c22
+}
+    // c23
+,
+    // c24
+}
+    // c25
+")).
+Eval vm_compute in ("<<<M309>>>" ++ check (runes_of_ascii "options // " ++ [27880; 37322]%N ++ runes_of_ascii "
+{charz
+    =
+/// triple
+/// triple
+int64 chars // trailing space 
+=
+65535
+// " ++ [27880; 37322]%N ++ runes_of_ascii "
+// a // b
+zchar =
+'\x00'MetaDataX// a // b
+=	0123456789
+roots
+// trailing space 
+// " ++ [27880; 37322]%N ++ runes_of_ascii "
+= """" } options {crc // c
+=""" ++ [28040; 24687]%N ++ runes_of_ascii """
+    ;
+    } MetaData	float {
+    zchar[ 42
+// `tick` ""quote"" 'q'
+//
+]
+leftPad
+    `line1
+line2` ,
+i64_ u,float32 // packet A { u8 x, }
+A`" ++ [28040; 24687; 31867; 22411]%N ++ runes_of_ascii "` , }")).
+Eval vm_compute in ("<<<M1472>>>" ++ check (runes_of_ascii "// top
+options // c0a
+  // c0b
+{ // c1a
+  // c1b
+LittleEndian // c2
+=
+    // c3
+true
+    // c4
+; // c5
+}
+    // c6
+root
+    // c7
+packet // c8a
+  // c8b
+P // c9
+{ u16 a
+    // c12
+, // c13a
+  // c13b
+u32 Sum // c15
+@calculatedFrom(
+    // c16
+""CRC32"" // c17
+) // c18a
+  // c18b
+, // c19a
+  // c19b
+} // c20a
+  // c20b
+")).
+Eval vm_compute in ("<<<M539>>>" ++ check (runes_of_ascii "root packet tag { }  packet MetaDataX{char[007	]
+// c
+/// triple
+asx  @calculatedFrom( @calculatedFrom( ""a\""b""
+) `say ""hi""`// " ++ [27880; 37322]%N ++ runes_of_ascii "
+,  @tag(4294967296 )
+    char[1//x
+] packetx @calculatedFrom(""a\""b""
+    ) ,
+// " ++ [128512]%N ++ runes_of_ascii " emoji
+// a // b
+@calculatedFrom(""" ++ [233]%N ++ runes_of_ascii "t" ++ [233]%N ++ runes_of_ascii """  ) repeat pack // " ++ [27880; 37322]%N ++ runes_of_ascii "
+,
+    } // c")).
+Eval vm_compute in ("<<<M92>>>" ++ check (runes_of_ascii "options
+    {
+    u8x =zchar[ 42 ] ;
+roots = """ ++ [233]%N ++ runes_of_ascii "t" ++ [233]%N ++ runes_of_ascii """	; calculatedFrom
+= '0' As =
+    ""packet"" ; } options	{falsey=  10
+    ; A=
+// c
+// packet A { u8 x, }
+'\x00' ; leftPad// c
+=	""" ++ [233]%N ++ runes_of_ascii "t" ++ [233]%N ++ runes_of_ascii """
+    ;
+    crc
+//	t
+// c
+= u16
+// `tick` ""quote"" 'q'
+// @lengthOf(
+;As
+= 255 } /// triple")).
+Eval vm_compute in ("<<<M614>>>" ++ check (runes_of_ascii "root packet tag { }  packet MetaDataX{char[007	]
+// c
+/// triple
+asx  @calculatedFrom( ""a\""b""
+) `say ""hi""`// " ++ [27880; 37322]%N ++ runes_of_ascii "
+,  @tag(4294967296 )
+    char[1//x
+] packetx @calculatedFrom(""a\""b""
+    ) , ,
+// " ++ [128512]%N ++ runes_of_ascii " emoji
+// a // b
+@calculatedFrom(""" ++ [233]%N ++ runes_of_ascii "t" ++ [233]%N ++ runes_of_ascii """  ) repeat pack // " ++ [27880; 37322]%N ++ runes_of_ascii "
+,
+    } // c")).
+Eval vm_compute in ("<<<M481>>>" ++ check (runes_of_ascii "packet root tag { }  packet MetaDataX{char[007	]
+// c
+/// triple
+asx  @calculatedFrom( ""a\""b""
+) `say ""hi""`// " ++ [27880; 37322]%N ++ runes_of_ascii "
+,  @tag(4294967296 )
+    char[1//x
+] packetx @calculatedFrom(""a\""b""
+    ) ,
+// " ++ [128512]%N ++ runes_of_ascii " emoji
+// a // b
+@calculatedFrom(""" ++ [233]%N ++ runes_of_ascii "t" ++ [233]%N ++ runes_of_ascii """  ) repeat pack // " ++ [27880; 37322]%N ++ runes_of_ascii "
+,
+    } // c")).
+Eval vm_compute in ("<<<M645>>>" ++ check (runes_of_ascii "root packet tag { }  packet MetaDataX{char[007	]
+// c
+/// triple
+asx  @calculatedFrom( ""a\""b""
+) `say ""hi""`// " ++ [27880; 37322]%N ++ runes_of_ascii "
+,  @tag(4294967296 )
+    char[1//x
+] packetx @calculatedFrom(""a\""b""
+    ) ,
+// " ++ [128512]%N ++ runes_of_ascii " emoji
+// a // b
+@calculatedFrom(""" ++ [233]%N ++ runes_of_ascii "t" ++ [233]%N ++ runes_of_ascii """  ) repeat pack // " ++ [27880; 37322]%N ++ runes_of_ascii "
+}
+    , // c")).
+Eval vm_compute in ("<<<M479>>>" ++ check (runes_of_ascii " packet tag { }  packet MetaDataX{char[007	]
+// c
+/// triple
+asx  @calculatedFrom( ""a\""b""
+) `say ""hi""`// " ++ [27880; 37322]%N ++ runes_of_ascii "
+,  @tag(4294967296 )
+    char[1//x
+] packetx @calculatedFrom(""a\""b""
+    ) ,
+// " ++ [128512]%N ++ runes_of_ascii " emoji
+// a // b
+@calculatedFrom(""" ++ [233]%N ++ runes_of_ascii "t" ++ [233]%N ++ runes_of_ascii """  ) repeat pack // " ++ [27880; 37322]%N ++ runes_of_ascii "
+,
+    } // c")).
+Eval vm_compute in ("<<<M1578>>>" ++ check (runes_of_ascii "options{LittleEndian
+=true ;}
+packet	Logon
+{ u8
+x	,string 
+user ,  } packet
+Logout {	u16 reason 
+,}  packet Empty
+	{
+
+}
+    root
+
+packet  Frame
+	{ 
+u16 
+MsgType ,
+u16 BodyLen@lengthOf( Body )	,
+	u8
+    flags,Logon
+    Body
+	,u32 trailer  ,
+    }
+
+")).
+Eval vm_compute in ("<<<M1579>>>" ++ check (runes_of_ascii "packet Sub {
+    u8 a,
+    @calculatedFrom(""CRC16"") u16 SubSum,
+}
+root packet Frame {
+    u16 MsgType,
+    u16 BodyLen @lengthOf(Body),
+    Sub Body,
+    string note,
+    @calculatedFrom(""CRC16"") u16 Checksum,
+    u8 tail,
 }
 ")).
-Eval vm_compute in ("<<<M487>>>" ++ check (runes_of_ascii "
-options {
-    A
-= 42 /// triple
-;
-    body =
-false; options1 = 0123456789 ; As
-= char[
-    7
-] ; }")).
-Eval vm_compute in ("<<<M4272>>>" ++ check (runes_of_ascii "MetaData float {
-    float64 charz `
-    `,// c
+Eval vm_compute in ("<<<M331>>>" ++ check (runes_of_ascii "options {
+calculatedFrom =  '0'
+    // c
+    float= char[] ; Pad= 0	;//	t
+_x
+    // packet A { u8 x, }
+    =007
+    ;
+}packet u
+    { @lengthOf( u) repeat
+string /// triple
+o
+,} root packet lengthOf { }
+
+")).
+Eval vm_compute in ("<<<M1737>>>" ++ check (runes_of_ascii "root packet Frame {
+    u8 K,
+    Logon first,
+    match K as Body {
+        1 : Logon,
+        2 : Logout,
+    },
 }
 
-root packet chars {
-    @rightPad('0')
-    Foo,
+packet Logon {
+    string user,
+}
+
+packet Logout {
+    u16 reason,
 }")).
-Eval vm_compute in ("<<<M3830>>>" ++ check (runes_of_ascii "MetaData A {
-    zchar[42] string_,
-}
+Eval vm_compute in ("<<<M607>>>" ++ check (runes_of_ascii "root packet tag { }  packet MetaDataX{char[007	]
+// c
+/// triple
+asx  @calculatedFrom( ""a\""b""
+) `say ""hi""`// " ++ [27880; 37322]%N ++ runes_of_ascii "
+,  @tag(4294967296 )
+    char[1//x
+] packetx @calculatedFrom(")).
+Eval vm_compute in ("<<<M466>>>" ++ check (runes_of_ascii "packet
+    // `tick` ""quote"" 'q'
+    crc
+// packet A { u8 x, }
+//	t
+{
+u32 @xa1 ,
+    // trailing space 
+    roots
+charz //
+`two words`,	}
+    MetaData int {
+} /// triple")).
+Eval vm_compute in ("<<<M426>>>" ++ check (runes_of_ascii "packet
+    // `tick` ""quote"" 'q'
+    crc
+// packet A { u8 x, }
+//	t
+{
+u32 a1 ,
+    // trailing space 
+    roots
+charz //
+,`two words`	}
+    MetaData int {
+} /// triple")).
+Eval vm_compute in ("<<<M685>>>" ++ check (runes_of_ascii "root packet len // trailing space 
 
-MetaData u {
-    // a // b
+// " ++ [27880; 37322]%N ++ runes_of_ascii "
+//	t
+char[10
+] metadata	@lengthOf( o ) `crlf
+line`,
+    @rightPad
+( ' '
+) string
+    Header @calculatedFrom( ""a\\""
+    ), }
+")).
+Eval vm_compute in ("<<<M442>>>" ++ check (runes_of_ascii "packet
+    // `tick` ""quote"" 'q'
+    crc
+// packet A { u8 x, }
+//	t
+{
+u32 a1 ,
+    // trailing space 
+    roots
+charz //
+`two words`,	}
+    as int {
+} /// triple")).
+Eval vm_compute in ("<<<M1619>>>" ++ check (runes_of_ascii "packet A {
+    Inner {
+        match k as n {
+            [
+                1, 22, 007, 4, 5,
+                66, 7
+            ] : B,
+        },
+    },
+}")).
+Eval vm_compute in ("<<<M1812>>>" ++ check (runes_of_ascii "packet
+
+    B{  u8
+    a, 
+}root
+packet
+	P  {
+    u8
+K
+
+    ,
+u64 
+L
+
+@lengthOf(
+
+Body )
+
+    ,match	K
+	as Body
+    {
+1 : B 
+, 
+}  ,	}
+
+")).
+Eval vm_compute in ("<<<M433>>>" ++ check (runes_of_ascii "packet
+    // `tick` ""quote"" 'q'
+    crc
+// packet A { u8 x, }
+//	t
+{
+u32 a1 ,
+    // trailing space 
+    roots
+charz //
+`two words`")).
+Eval vm_compute in ("<<<M1837>>>" ++ check (runes_of_ascii "root packet matchKey {
+    zchar[3] pack @calculatedFrom(""a	b"") `doc`,
 }
 
 options {
-    o = ""CRC32"";
+}
+
+MetaData A {
+    int8 msg_type,
+}
+// c")).
+Eval vm_compute in ("<<<M1236>>>" ++ check (runes_of_ascii "root packet matchKey { zchar[ 3 ]
+// c
+pack @calculatedFrom( ""a	b"" ) `doc` , } options { } MetaData A { int8 msg_type , }")).
+Eval vm_compute in ("<<<M1268>>>" ++ check (runes_of_ascii "root packet matchKey { zchar[ 3 ] pack @calculatedFrom( ""a	b"" ) `doc` , } options { } MetaData A { int8 msg_type ,
+// c
 }")).
-Eval vm_compute in ("<<<M2970>>>" ++ check (runes_of_ascii "packet A {
+Eval vm_compute in ("<<<M567>>>" ++ check (runes_of_ascii "root packet tag { }  packet MetaDataX{char[007	]
+// c
+/// triple
+asx  @calculatedFrom( ""a\""b""
+) `say ""hi""`// " ++ [27880; 37322]%N ++ runes_of_ascii "
+,")).
+Eval vm_compute in ("<<<M1856>>>" ++ check (runes_of_ascii "MetaData
+body
+{i64
+
+    pack
+`it's`  , }
+
+    packet stringy  {
+	int16
+
+    calculatedFrom 
+, // c
+}
+
+")).
+Eval vm_compute in ("<<<M944>>>" ++ check (runes_of_ascii "packet A {
+    u16 len @lengthOf(body) `x
+`,
+    u32 crc @calculatedFrom(""CRC32"") `x
+`,
+    string body,
+}")).
+Eval vm_compute in ("<<<M883>>>" ++ check (runes_of_ascii "packet A {
   match k as n {
-    [1, 22, ""c c"", 4, 5, ""f"", 7, 8, ""i"", 10] : B,
+    [""a"", ""bb"", 007, ""d"", ""e"", 66, ""g"", ""h"", 9, ""j""] : B,
     2 : C
   },
 }")).
-Eval vm_compute in ("<<<M3676>>>" ++ check (runes_of_ascii "
-root 
-packet roots
-{
-    // " ++ [128512]%N ++ runes_of_ascii " emoji
-		calculatedFrom 	 // c
-    	x_y_z
+Eval vm_compute in ("<<<M1644>>>" ++ check (runes_of_ascii "packet	A 
+{match 
+k 
+as
+	n	{[
+
+1
+    , ""bb""	, 007
+
+,""d"" ,5 ]
+	:
+
+    B 
+2
+
+    :
+C}
 
 ,
-	}  // a // b
+    }
+
 ")).
-Eval vm_compute in ("<<<M3305>>>" ++ check (runes_of_ascii "MetaData float { float64 charz `
+Eval vm_compute in ("<<<M857>>>" ++ check (runes_of_ascii "packet A {
+  match k as n {
+    [""a"", ""bb"", 007, ""d"", ""e"", 66, ""g"", ""h""] : B,
+    2 : C
+  },
+}")).
+Eval vm_compute in ("<<<M1216>>>" ++ check (runes_of_ascii "MetaData float { float64 charz `
 ` , } root packet chars { @rightPad ( '0' ) Foo , } // c
 ")).
-Eval vm_compute in ("<<<M3281>>>" ++ check (runes_of_ascii "MetaData float { float64 charz `
-` , // c
-} root packet chars { @rightPad ( '0' ) Foo , }")).
-Eval vm_compute in ("<<<M3492>>>" ++ check (runes_of_ascii "packet chars { }
+Eval vm_compute in ("<<<M1195>>>" ++ check (runes_of_ascii "MetaData float { float64 charz `
+` , }
 // c
-packet MetaDataX { @tag( 42 ) i16 string_ , repeat x `say ""hi""` , }")).
-Eval vm_compute in ("<<<M16>>>" ++ check (runes_of_ascii "packet Z9_// packet A { u8 x, }
-{ @tag(
-4294967296 )uint8x@calculatedFrom( ""abc"" ), }
+root packet chars { @rightPad ( '0' ) Foo , }")).
+Eval vm_compute in ("<<<M1406>>>" ++ check (runes_of_ascii "packet chars { } packet MetaDataX // c
+{ @tag( 42 ) i16 string_ , repeat x `say ""hi""` , }")).
+Eval vm_compute in ("<<<M1834>>>" ++ check (runes_of_ascii "
+packet A
 
-")).
-Eval vm_compute in ("<<<M2298>>>" ++ check (runes_of_ascii "options
-{ } options { BodyLength= u16 Header= f64 ; " ++ [8232]%N ++ runes_of_ascii "u128 =
-    true
-    ; } // a // b")).
-Eval vm_compute in ("<<<M2229>>>" ++ check (runes_of_ascii "options
-{ } options ) BodyLength= u16 Header= f64 ; u128 =
-    true
-    ; } // a // b")).
-Eval vm_compute in ("<<<M3232>>>" ++ check (runes_of_ascii "packet metadata { Logon { A `" ++ [28040; 24687; 31867; 22411]%N ++ runes_of_ascii "` , tag o
+    {
+match
+	k
+    as n  {[
+	1,""bb"" ,007
+
+,""d""
+
+, 5 ]
+:
+	B ,
+
+2 : C }  ,
+}")).
+Eval vm_compute in ("<<<M1136>>>" ++ check (runes_of_ascii "packet metadata { Logon { A `" ++ [28040; 24687; 31867; 22411]%N ++ runes_of_ascii "` // c
+, tag o , } , zchar len `// not a comment` , }")).
+Eval vm_compute in ("<<<M1341>>>" ++ check (runes_of_ascii "packet
 // c
-, } , zchar len `// not a comment` , }")).
-Eval vm_compute in ("<<<M2286>>>" ++ check (runes_of_ascii "options
-{ } options { BodyLength= u16 Header= f64 ; u128 =
-    true
-    ;  // a // b")).
-Eval vm_compute in ("<<<M3455>>>" ++ check (runes_of_ascii "packet o { repeat Logon uint8x , } options { asx = zchar[ 3 // c
-] stringy = '\x00' }")).
-Eval vm_compute in ("<<<M1054>>>" ++ check (runes_of_ascii "MetaData A { } packet
-    asx { @calculatedFrom(""`tick`""
-) matchKey uint8x `" ++ [233]%N ++ runes_of_ascii "` ,
-}
+o { repeat Logon uint8x , } options { asx = zchar[ 3 ] stringy = '\x00' }")).
+Eval vm_compute in ("<<<M1373>>>" ++ check (runes_of_ascii "packet o { repeat Logon uint8x , } options { asx = zchar[ 3 ] stringy =
+// c
+'\x00' }")).
+Eval vm_compute in ("<<<M842>>>" ++ check (runes_of_ascii "packet A {
+  match k as n {
+    [1, 22, ""c c"", 4, 5, ""f"", 7] : B,
+    2 : C
+  },
+}")).
+Eval vm_compute in ("<<<M1502>>>" ++ check (runes_of_ascii "packet orderItem  {u8
+    a ,}  root packet 
+newOrder
+	{ orderItem , u8	x
+    ,}
 ")).
-Eval vm_compute in ("<<<M3398>>>" ++ check (runes_of_ascii "MetaData body { // c
-i64 pack `it's` , } packet stringy { int16 calculatedFrom , }")).
-Eval vm_compute in ("<<<M1166>>>" ++ check (runes_of_ascii "/// triple
-options
-{ Z9_ =
-007;
+Eval vm_compute in ("<<<M814>>>" ++ check (runes_of_ascii "packet A {
+  match k as n {
+    [""a"", 22, ""c c"", 4, ""e""] : B,
+    2 : C
+  },
+}")).
+Eval vm_compute in ("<<<M97>>>" ++ check (runes_of_ascii "options // " ++ [27880; 37322]%N ++ runes_of_ascii "
+{
+// packet A { u8 x, }
 // a // b
-//
-Pad =0123456789
-u  = ""CRC32""
+}
+    packet T {
     }
 ")).
-Eval vm_compute in ("<<<M2221>>>" ++ check (runes_of_ascii "options
-{ }  { BodyLength= u16 Header= f64 ; u128 =
-    true
-    ; } // a // b")).
-Eval vm_compute in ("<<<M2231>>>" ++ check (runes_of_ascii "options
-{ } options { = u16 Header= f64 ; u128 =
-    true
-    ; } // a // b")).
-Eval vm_compute in ("<<<M2890>>>" ++ check (runes_of_ascii "packet A {
-  match k as n {
-    [""a"", 22, ""c c"", 4] : B,
-    2 : C
-  },
-}")).
-Eval vm_compute in ("<<<M2892>>>" ++ check (runes_of_ascii "packet A {
-  match k as n {
-    [1, 22, ""c c"", 4] : B,
-    2 : C
-  },
-}")).
-Eval vm_compute in ("<<<M2794>>>" ++ check (runes_of_ascii "@lengthOf( options string u16 as ] i16 ( uint32 , options 7 [ uint16")).
-Eval vm_compute in ("<<<M1023>>>" ++ check (runes_of_ascii "packet x_y_z { char stringy@calculatedFrom( """ ++ [233]%N ++ runes_of_ascii "t" ++ [233]%N ++ runes_of_ascii """ ), } /// triple")).
-Eval vm_compute in ("<<<M2866>>>" ++ check (runes_of_ascii "packet A {
-  match k as n {
-    [1, ""bb""] : B,
-    2 : C
-  },
-}")).
-Eval vm_compute in ("<<<M123>>>" ++ check (runes_of_ascii "
-packet crc	{ u32 T@lengthOf( x ) `crlf
-line` ,// a // b
-}")).
-Eval vm_compute in ("<<<M2606>>>" ++ check (runes_of_ascii "packet A { match k as n { 1 : B 2 : C ""s"" : D [1] : E }, }")).
-Eval vm_compute in ("<<<M4573>>>" ++ check (runes_of_ascii "options {
-    a = ""x\
-        y"";
-    b = ""x\
-        y""
-}")).
-Eval vm_compute in ("<<<M1180>>>" ++ check (runes_of_ascii "packet
-    Header
-{
-i32 float, } // `tick` ""quote"" 'q'")).
-Eval vm_compute in ("<<<M4133>>>" ++ check (runes_of_ascii "MetaData M {
-    u8 x `
-    x`,
-    T t `
-    x`,
-}")).
-Eval vm_compute in ("<<<M999>>>" ++ check (runes_of_ascii "MetaData metadata
-    {
-    // c
-    i32
-x , }
+Eval vm_compute in ("<<<M747>>>" ++ check (runes_of_ascii "as [ match ] ] : @calculatedFrom( uint8 ) as @calculatedFrom( string")).
+Eval vm_compute in ("<<<M158>>>" ++ check (runes_of_ascii "options { x_y_z =
+true;a1 = true ;
+options1  =
+    true  ; }
 ")).
-Eval vm_compute in ("<<<M1126>>>" ++ check (runes_of_ascii "packet Logon
-    { string u  `two words` , }
+Eval vm_compute in ("<<<M1086>>>" ++ check (runes_of_ascii "packet A { @leftPad() char[4] x, @rightPad( ) zchar[2] y, }")).
+Eval vm_compute in ("<<<M1294>>>" ++ check (runes_of_ascii "packet x { @rightPad ( ) repeat roots Logon `doc` // c
+, }")).
+Eval vm_compute in ("<<<M2106>>>" ++ check (runes_of_ascii "
+root
+packet 
+P
+
+{	repeat char cs	, u8
+    x  ,
+
+} ")).
+Eval vm_compute in ("<<<M1378>>>" ++ check (runes_of_ascii "// top
+MetaData // c0
+o // c1
+{ // c2
+} // c3
 ")).
-Eval vm_compute in ("<<<M2762>>>" ++ check (runes_of_ascii "zchar[ @leftPad root repeat ) char [ [ char")).
-Eval vm_compute in ("<<<M4333>>>" ++ check (runes_of_ascii "packet A {
-    B {
-        u8 x,
-    },
-}")).
-Eval vm_compute in ("<<<M371>>>" ++ check (runes_of_ascii "//
-packet u8x{
-    }	packet
-    crc { }")).
-Eval vm_compute in ("<<<M2741>>>" ++ check (runes_of_ascii "Si%1~!4?\#L9=!>+J5vW%0b""]sse$x8k|lJ9Z")).
-Eval vm_compute in ("<<<M1033>>>" ++ check (runes_of_ascii "options {
-_x = 65535// " ++ [128512]%N ++ runes_of_ascii " emoji
-; }
-")).
-Eval vm_compute in ("<<<M3012>>>" ++ check (runes_of_ascii "root packet A {
+Eval vm_compute in ("<<<M935>>>" ++ check (runes_of_ascii "root packet A {
     u8 x `a
-b`,
+    b
+  c`,
 }")).
-Eval vm_compute in ("<<<M2657>>>" ++ check (runes_of_ascii "options { a = 1; b = 2 c = 3;; }")).
-Eval vm_compute in ("<<<M891>>>" ++ check (runes_of_ascii "options {
-zchar	= '\x00' ;
+Eval vm_compute in ("<<<M1766>>>" ++ check (runes_of_ascii "MetaData packetx {
+    zchar[7] u128,
+}")).
+Eval vm_compute in ("<<<M1085>>>" ++ check (runes_of_ascii "packet A { @tag( // a
+ 1 ) u8 x, }")).
+Eval vm_compute in ("<<<M983>>>" ++ check (runes_of_ascii "packet A {
+ u8 x `d" ++ [160]%N ++ runes_of_ascii "`, // c" ++ [160]%N ++ runes_of_ascii "
+}")).
+Eval vm_compute in ("<<<M314>>>" ++ check (runes_of_ascii "MetaData roots	{ u Logon ,}")).
+Eval vm_compute in ("<<<M737>>>" ++ check (runes_of_ascii "\Tv)jTR6Bqg&Y!_Pjqu\Kxc")).
+Eval vm_compute in ("<<<M1386>>>" ++ check (runes_of_ascii "MetaData o
+// c
+{ }")).
+Eval vm_compute in ("<<<M1031>>>" ++ check (runes_of_ascii "packet A {
 }
+// c" ++ [12]%N)).
+Eval vm_compute in ("<<<M1077>>>" ++ check (runes_of_ascii "options { // a
+ }")).
+Eval vm_compute in ("<<<M340>>>" ++ check (runes_of_ascii "// " ++ [27880; 37322]%N ++ runes_of_ascii "
+
 ")).
-Eval vm_compute in ("<<<M396>>>" ++ check (runes_of_ascii "  options
-{ a1 = ' '
-    ; }")).
-Eval vm_compute in ("<<<M1338>>>" ++ check (runes_of_ascii "root
-    packet chars { }
-")).
-Eval vm_compute in ("<<<M2628>>>" ++ check (runes_of_ascii "packet A { u8 x, @tag(1) }")).
-Eval vm_compute in ("<<<M3951>>>" ++ check (runes_of_ascii "// c
-root packet pack {
-}")).
-Eval vm_compute in ("<<<M2715>>>" ++ check (runes_of_ascii "U;|@OK7+-3OJxNfG`GF-D*L")).
-Eval vm_compute in ("<<<M3148>>>" ++ check (runes_of_ascii "packet A {
-}// a// b")).
-Eval vm_compute in ("<<<M393>>>" ++ check (runes_of_ascii " // trailing space ")).
-Eval vm_compute in ("<<<M149>>>" ++ check (runes_of_ascii "packet	crc
-    { }")).
-Eval vm_compute in ("<<<M3111>>>" ++ check (runes_of_ascii "// c" ++ [8287]%N ++ runes_of_ascii "
-packet A {
-}")).
-Eval vm_compute in ("<<<M3058>>>" ++ check (runes_of_ascii "packet A {
-}// c ")).
-Eval vm_compute in ("<<<M2764>>>" ++ check (runes_of_ascii "%w)<yjd'GFjF/'l0")).
-Eval vm_compute in ("<<<M1129>>>" ++ check (runes_of_ascii "MetaData
-o{ }")).
-Eval vm_compute in ("<<<M2833>>>" ++ check ([651]%N ++ runes_of_ascii "o" ++ [65533; 65533]%N ++ runes_of_ascii "
-z" ++ [65533; 15; 21; 65533]%N ++ runes_of_ascii "y")).
-Eval vm_compute in ("<<<M2505>>>" ++ check (runes_of_ascii "// ab
-c")).
-Eval vm_compute in ("<<<M2456>>>" ++ check (runes_of_ascii "option")).
-Eval vm_compute in ("<<<M2511>>>" ++ check (runes_of_ascii """a\""""")).
-Eval vm_compute in ("<<<M2460>>>" ++ check (runes_of_ascii "root")).
-Eval vm_compute in ("<<<M2500>>>" ++ check (runes_of_ascii "///")).
-Eval vm_compute in ("<<<M2476>>>" ++ check (runes_of_ascii "''")).
-Eval vm_compute in ("<<<M2678>>>" ++ check (runes_of_ascii "1")).
+Eval vm_compute in ("<<<M487>>>" ++ check (runes_of_ascii "root")).
